@@ -4,6 +4,12 @@ Only property theorems, private helper lemmas and non-vacuity examples live here
 by ./check C19.  The arithmetic kernels are the definitions of Gen/PolygonKernels.lean regenerated from the source.
 -/
 import EzdxfVerif.Model.Polygon
+import EzdxfVerif.Lemmas.PolygonHull
+import EzdxfVerif.Lemmas.PolygonPip
+import EzdxfVerif.Lemmas.PolygonConvex
+import EzdxfVerif.Lemmas.PolygonEar
+import EzdxfVerif.Lemmas.PolygonGH
+import EzdxfVerif.Lemmas.PolygonEarConvex
 import Mathlib.Tactic.Ring
 import Mathlib.Tactic.Linarith
 import Mathlib.Tactic.FieldSimp
@@ -895,6 +901,122 @@ theorem clipPolygon_inside (clip : List Pt) (tol : Rat) (htol : 0 ≤ tol) (poly
     exact clipPolygonGo_inside tol htol (c :: cs) (lastPt c cs) poly [] (by simp) v hv e (by simpa [polygonEdges] using he)
 
 
+/-! ### E2. Sutherland-Hodgman, session 3: result inside the convex hull of the subject, subject outside one clipping
+edge => empty, subject strictly inside => unchanged -/
+
+private theorem clipPolygonGo_forall_halfplane (tol : Rat) (htol : 0 ≤ tol) (c d : Pt) (es : List Pt) (cs : Pt) (poly : List Pt)
+    (h : ∀ v ∈ poly, 0 ≤ sideOf c d v) : ∀ v ∈ clipPolygonGo tol cs es poly, 0 ≤ sideOf c d v := by
+  induction es generalizing cs poly with
+  | nil => simpa [clipPolygonGo] using h
+  | cons ce rest ih =>
+    simp only [clipPolygonGo]
+    exact ih ce _ (clipEdge_preserves_halfplane cs ce tol htol c d poly h)
+
+/-- the result lies in the closed convex hull of the subject: every closed half-plane that contains all subject vertices
+contains all result vertices (together with `clipPolygon_inside`: result ⊆ clip ∩ hull(subject)) -/
+theorem clipPolygon_in_subject_hull (clip : List Pt) (tol : Rat) (htol : 0 ≤ tol) (poly : List Pt) (c d : Pt)
+    (h : ∀ v ∈ poly, 0 ≤ sideOf c d v) : ∀ v ∈ clipPolygon clip tol poly, 0 ≤ sideOf c d v := by
+  cases clip with
+  | nil => simpa [clipPolygon] using h
+  | cons a as => exact clipPolygonGo_forall_halfplane tol htol c d (a :: as) (lastPt a as) poly h
+
+private theorem sideOf_swap (c d v : Pt) : sideOf d c v = - sideOf c d v := by simp only [sideOf]; ring
+
+private theorem clipEdgeGo_all_outside (cs ce : Pt) (tol : Rat) (es0 : Pt) (l : List Pt)
+    (h0 : shInside cs ce es0 = false) (h : ∀ v ∈ l, shInside cs ce v = false) : clipEdgeGo cs ce tol es0 l = [] := by
+  induction l generalizing es0 with
+  | nil => rfl
+  | cons ee rest ih =>
+    have hee := h ee (by simp)
+    simp only [clipEdgeGo, hee, h0, Bool.false_eq_true, if_false, List.nil_append]
+    exact ih ee hee (fun v hv => h v (List.mem_cons_of_mem _ hv))
+
+private theorem clipEdge_all_outside (cs ce : Pt) (tol : Rat) (poly : List Pt)
+    (h : ∀ v ∈ poly, shInside cs ce v = false) : clipEdge cs ce tol poly = [] := by
+  unfold clipEdge
+  split
+  · rfl
+  · rename_i v vs hpc
+    have hsub : ∀ p ∈ v :: vs, p ∈ poly := by
+      intro p hp; rw [← hpc] at hp; exact popClosing_subset _ _ p hp
+    exact clipEdgeGo_all_outside cs ce tol _ _ (h _ (hsub _ (lastPt_mem v vs))) (fun p hp => h p (hsub p hp))
+
+private theorem clipPolygonGo_nil (tol : Rat) (cs : Pt) (es : List Pt) : clipPolygonGo tol cs es [] = [] := by
+  induction es generalizing cs with
+  | nil => rfl
+  | cons ce rest ih =>
+    simp only [clipPolygonGo]
+    have : clipEdge cs ce tol [] = [] := by simp [clipEdge, popClosing]
+    rw [this]; exact ih ce
+
+private theorem clipPolygonGo_outside (tol : Rat) (htol : 0 ≤ tol) (e : Pt × Pt) (es : List Pt) (cs : Pt) (poly : List Pt)
+    (he : e ∈ clipEdges cs es) (h : ∀ v ∈ poly, sideOf e.1 e.2 v ≤ 0) : clipPolygonGo tol cs es poly = [] := by
+  induction es generalizing cs poly with
+  | nil => simp [clipEdges] at he
+  | cons ce rest ih =>
+    simp only [clipEdges, List.mem_cons] at he
+    simp only [clipPolygonGo]
+    rcases he with rfl | he
+    · have : clipEdge cs ce tol poly = [] := by
+        apply clipEdge_all_outside
+        intro v hv
+        have := h v hv
+        by_contra hc
+        have : shInside cs ce v = true := by simpa using hc
+        rw [shInside_iff] at this
+        linarith
+      rw [this]
+      exact clipPolygonGo_nil tol ce rest
+    · apply ih ce _ he
+      intro v hv
+      have := clipEdge_preserves_halfplane cs ce tol htol e.2 e.1 poly
+        (fun w hw => by rw [sideOf_swap]; have := h w hw; linarith) v hv
+      rw [sideOf_swap] at this
+      linarith
+
+/-- `clip_outside_empty`: a subject polygon that lies in the closed right half-plane of ONE clipping edge (outside or
+touching from outside) is clipped to nothing, for any clipping polygon -/
+theorem clip_outside_empty (clip : List Pt) (tol : Rat) (htol : 0 ≤ tol) (poly : List Pt) (e : Pt × Pt)
+    (he : e ∈ polygonEdges clip) (h : ∀ v ∈ poly, sideOf e.1 e.2 v ≤ 0) : clipPolygon clip tol poly = [] := by
+  cases clip with
+  | nil => simp [polygonEdges] at he
+  | cons a as => exact clipPolygonGo_outside tol htol e (a :: as) (lastPt a as) poly (by simpa [polygonEdges] using he) h
+
+private theorem clipEdgeGo_all_inside (cs ce : Pt) (tol : Rat) (es0 : Pt) (l : List Pt)
+    (h0 : shInside cs ce es0 = true) (h : ∀ v ∈ l, shInside cs ce v = true) : clipEdgeGo cs ce tol es0 l = l := by
+  induction l generalizing es0 with
+  | nil => rfl
+  | cons ee rest ih =>
+    have hee := h ee (by simp)
+    simp only [clipEdgeGo, hee, h0, if_true, Bool.not_true, Bool.false_eq_true, if_false, List.nil_append, List.singleton_append]
+    rw [ih ee hee (fun v hv => h v (List.mem_cons_of_mem _ hv))]
+
+private theorem clipEdge_all_inside (cs ce : Pt) (tol : Rat) (poly : List Pt) (hopen : popClosing poly tol = poly)
+    (h : ∀ v ∈ poly, shInside cs ce v = true) : clipEdge cs ce tol poly = poly := by
+  unfold clipEdge
+  rw [hopen]
+  match poly, h with
+  | [], _ => rfl
+  | v :: vs, h => exact clipEdgeGo_all_inside cs ce tol _ _ (h _ (lastPt_mem v vs)) h
+
+private theorem clipPolygonGo_all_inside (tol : Rat) (es : List Pt) (cs : Pt) (poly : List Pt)
+    (hopen : popClosing poly tol = poly) (h : ∀ e ∈ clipEdges cs es, ∀ v ∈ poly, shInside e.1 e.2 v = true) :
+    clipPolygonGo tol cs es poly = poly := by
+  induction es generalizing cs with
+  | nil => rfl
+  | cons ce rest ih =>
+    simp only [clipPolygonGo]
+    rw [clipEdge_all_inside cs ce tol poly hopen (h (cs, ce) (by simp [clipEdges]))]
+    exact ih ce (fun e he => h e (by simp only [clipEdges, List.mem_cons]; exact Or.inr he))
+
+/-- `clip_inside_identity`: a subject polygon without a repeated closing vertex whose vertices all lie strictly left of every
+clipping edge is returned unchanged (same vertices, same order, same start) -/
+theorem clip_inside_identity (clip : List Pt) (tol : Rat) (poly : List Pt) (hopen : popClosing poly tol = poly)
+    (h : ∀ e ∈ polygonEdges clip, ∀ v ∈ poly, shInside e.1 e.2 v = true) : clipPolygon clip tol poly = poly := by
+  cases clip with
+  | nil => rfl
+  | cons a as => exact clipPolygonGo_all_inside tol (a :: as) (lastPt a as) poly hopen (by simpa [polygonEdges] using h)
+
 /-! ## F. Cohen-Sutherland (`CohenSutherlandLineClipping2d`) -/
 
 /-- position of a coordinate relative to the window interval -/
@@ -1522,6 +1644,775 @@ theorem cs_reject_sound_partial (w : Win) (p0 p1 : Pt)
   · have := convex_lt p0.x p1.x t w.xmin t0 t1 (clsOf_lo.mp a) (clsOf_lo.mp b); linarith
 
 
+/-! ### F2. exactness (session 3): the accepted segment is exactly segment ∩ window, a reject means an empty intersection
+
+Additional loop invariant: every point of the input segment that lies in the window has its parameter between the
+parameters of the two current end points ("every discarded piece lies outside"). -/
+
+private theorem clip_on_bound (code : Nat) (x y x0 y0 x1 y1 xmin xmax ymin ymax : Rat) :
+    (PolygonKernels.csClipBit code = 8 → PolygonKernels.csClipY code x y x0 y0 x1 y1 xmin xmax ymin ymax = ymax) ∧
+    (PolygonKernels.csClipBit code = 4 → PolygonKernels.csClipY code x y x0 y0 x1 y1 xmin xmax ymin ymax = ymin) ∧
+    (PolygonKernels.csClipBit code = 2 → PolygonKernels.csClipX code x y x0 y0 x1 y1 xmin xmax ymin ymax = xmax) ∧
+    (PolygonKernels.csClipBit code = 1 → PolygonKernels.csClipX code x y x0 y0 x1 y1 xmin xmax ymin ymax = xmin) := by
+  simp only [PolygonKernels.csClipBit, PolygonKernels.csClipX, PolygonKernels.csClipY]
+  split_ifs <;> simp
+
+/-- three values of an affine function at `te`, `tq`, `t`; the value at `te` violates a bound that the value at `tq`
+meets exactly and the value at `t` respects: `t` is not on the side of `te` -/
+private theorem cut_left_hi (g0 gq gt te tq t : Rat) (haff : (gt - gq) * (te - tq) = (g0 - gq) * (t - tq))
+    (hE : gq < g0) (ht : gt ≤ gq) (hle : te ≤ tq) : tq ≤ t := by
+  by_contra h
+  rw [not_le] at h
+  have a : (g0 - gq) * (t - tq) < 0 := mul_neg_of_pos_of_neg (by linarith) (by linarith)
+  have b : 0 ≤ (gt - gq) * (te - tq) := mul_nonneg_of_nonpos_of_nonpos (by linarith) (by linarith)
+  linarith
+private theorem cut_left_lo (g0 gq gt te tq t : Rat) (haff : (gt - gq) * (te - tq) = (g0 - gq) * (t - tq))
+    (hE : g0 < gq) (ht : gq ≤ gt) (hle : te ≤ tq) : tq ≤ t :=
+  cut_left_hi (-g0) (-gq) (-gt) te tq t (by linear_combination -haff) (by linarith) (by linarith) hle
+private theorem cut_right_hi (g0 gq gt te tq t : Rat) (haff : (gt - gq) * (te - tq) = (g0 - gq) * (t - tq))
+    (hE : gq < g0) (ht : gt ≤ gq) (hle : tq ≤ te) : t ≤ tq := by
+  have := cut_left_hi g0 gq gt (-te) (-tq) (-t) (by linear_combination -haff) hE ht (by linarith)
+  linarith
+private theorem cut_right_lo (g0 gq gt te tq t : Rat) (haff : (gt - gq) * (te - tq) = (g0 - gq) * (t - tq))
+    (hE : g0 < gq) (ht : gq ≤ gt) (hle : tq ≤ te) : t ≤ tq :=
+  cut_right_hi (-g0) (-gq) (-gt) te tq t (by linear_combination -haff) (by linarith) (by linarith) hle
+
+private theorem lerp_aff (p0 p1 : Pt) (a b c : Rat) :
+    ((lerp p0 p1 c).x - (lerp p0 p1 b).x) * (a - b) = ((lerp p0 p1 a).x - (lerp p0 p1 b).x) * (c - b) ∧
+    ((lerp p0 p1 c).y - (lerp p0 p1 b).y) * (a - b) = ((lerp p0 p1 a).y - (lerp p0 p1 b).y) * (c - b) := by
+  simp only [lerp]; constructor <;> ring
+
+/-- an affine function that exceeds `b` at both ends of an interval exceeds `b` inside -/
+private theorem aff_gt (a d t0 t1 t b : Rat) (h0 : b < a + t0 * d) (h1 : b < a + t1 * d) (k0 : t0 ≤ t) (k1 : t ≤ t1) :
+    b < a + t * d := by
+  rcases le_or_gt 0 d with hd | hd
+  · have := mul_nonneg (sub_nonneg.mpr k0) hd
+    nlinarith
+  · have := mul_nonneg_of_nonpos_of_nonpos (sub_nonpos.mpr k1) hd.le
+    nlinarith
+private theorem aff_lt (a d t0 t1 t b : Rat) (h0 : a + t0 * d < b) (h1 : a + t1 * d < b) (k0 : t0 ≤ t) (k1 : t ≤ t1) :
+    a + t * d < b := by
+  have := aff_gt (-a) (-d) t0 t1 t (-b) (by linarith) (by linarith) k0 k1
+  linarith
+
+/-- the reject test on two points of the segment: nothing between them is in the window -/
+private theorem reject_between (w : Win) (p0 p1 : Pt) (t0 t1 t : Rat)
+    (h : PolygonKernels.csReject (w.encode (lerp p0 p1 t0).x (lerp p0 p1 t0).y) (w.encode (lerp p0 p1 t1).x (lerp p0 p1 t1).y) = true)
+    (k0 : t0 ≤ t) (k1 : t ≤ t1) : ¬ w.contains (lerp p0 p1 t) := by
+  rw [encode_eq, encode_eq] at h
+  have hc : (clsOf (lerp p0 p1 t0).y w.ymin w.ymax = .hi ∧ clsOf (lerp p0 p1 t1).y w.ymin w.ymax = .hi) ∨
+      (clsOf (lerp p0 p1 t0).y w.ymin w.ymax = .lo ∧ clsOf (lerp p0 p1 t1).y w.ymin w.ymax = .lo) ∨
+      (clsOf (lerp p0 p1 t0).x w.xmin w.xmax = .hi ∧ clsOf (lerp p0 p1 t1).x w.xmin w.xmax = .hi) ∨
+      (clsOf (lerp p0 p1 t0).x w.xmin w.xmax = .lo ∧ clsOf (lerp p0 p1 t1).x w.xmin w.xmax = .lo) := by
+    revert h
+    cases clsOf (lerp p0 p1 t0).x w.xmin w.xmax <;> cases clsOf (lerp p0 p1 t0).y w.ymin w.ymax <;>
+      cases clsOf (lerp p0 p1 t1).x w.xmin w.xmax <;> cases clsOf (lerp p0 p1 t1).y w.ymin w.ymax <;>
+      simp [codeOf, PolygonKernels.csReject]
+  intro hcon
+  simp only [Win.contains] at hcon
+  simp only [lerp] at hc hcon
+  rcases hc with ⟨a, b⟩ | ⟨a, b⟩ | ⟨a, b⟩ | ⟨a, b⟩
+  · have := aff_gt p0.y (p1.y - p0.y) t0 t1 t w.ymax (clsOf_hi_gt a) (clsOf_hi_gt b) k0 k1; linarith
+  · have := aff_lt p0.y (p1.y - p0.y) t0 t1 t w.ymin (clsOf_lo.mp a) (clsOf_lo.mp b) k0 k1; linarith
+  · have := aff_gt p0.x (p1.x - p0.x) t0 t1 t w.xmax (clsOf_hi_gt a) (clsOf_hi_gt b) k0 k1; linarith
+  · have := aff_lt p0.x (p1.x - p0.x) t0 t1 t w.xmin (clsOf_lo.mp a) (clsOf_lo.mp b) k0 k1; linarith
+
+/-- the window points of the segment have parameters between `t0` and `t1` -/
+private def Between (w : Win) (p0 p1 : Pt) (t0 t1 : Rat) : Prop :=
+  ∀ t : Rat, 0 ≤ t → t ≤ 1 → w.contains (lerp p0 p1 t) → t0 ≤ t ∧ t ≤ t1
+
+private theorem cs_master2 (w : Win) (hx : w.xmin ≤ w.xmax) (hy : w.ymin ≤ w.ymax) (p0 p1 : Pt) (fuel : Nat) :
+    ∀ (t0 t1 x y : Rat) (d0 d1 : Nat), 0 ≤ t0 → t0 ≤ t1 → t1 ≤ 1 →
+      Inv w (lerp p0 p1 t0).x (lerp p0 p1 t0).y (lerp p0 p1 t1).x (lerp p0 p1 t1).y d0 d1 →
+      Between w p0 p1 t0 t1 →
+      (∀ q0 q1, csLoop w fuel (lerp p0 p1 t0).x (lerp p0 p1 t0).y (lerp p0 p1 t1).x (lerp p0 p1 t1).y x y d0 d1
+          = .accept q0 q1 →
+        ∃ u0 u1 : Rat, 0 ≤ u0 ∧ u0 ≤ u1 ∧ u1 ≤ 1 ∧ q0 = lerp p0 p1 u0 ∧ q1 = lerp p0 p1 u1 ∧ Between w p0 p1 u0 u1) ∧
+      (csLoop w fuel (lerp p0 p1 t0).x (lerp p0 p1 t0).y (lerp p0 p1 t1).x (lerp p0 p1 t1).y x y d0 d1 = .reject →
+        ∀ t : Rat, 0 ≤ t → t ≤ 1 → ¬ w.contains (lerp p0 p1 t)) := by
+  induction fuel with
+  | zero =>
+    intro t0 t1 x y d0 d1 _ _ _ _ _
+    exact ⟨fun q0 q1 h => by simp [csLoop] at h, fun h => by simp [csLoop] at h⟩
+  | succ n ih =>
+    intro t0 t1 x y d0 d1 a0 a01 b1 hinv hbet
+    obtain ⟨hd0, hd1, hsat⟩ := hinv
+    have hno := sat_noop d0 d1 hd0 hd1 _ _ _ _ hsat
+    simp only [csLoop, encode_eq, hno.1, hno.2]
+    simp only [← encode_eq]
+    split
+    · rename_i hacc
+      refine ⟨fun q0 q1 h => ?_, fun h => by simp at h⟩
+      simp only [CsResult.accept.injEq] at h
+      obtain ⟨rfl, rfl⟩ := h
+      exact ⟨t0, t1, a0, a01, b1, rfl, rfl, hbet⟩
+    · rename_i hacc
+      split
+      · rename_i hrej
+        refine ⟨fun q0 q1 h => by simp at h, fun _ t k0 k1 hc => ?_⟩
+        obtain ⟨m0, m1⟩ := hbet t k0 k1 hc
+        exact reject_between w p0 p1 t0 t1 t hrej m0 m1 hc
+      · rename_i hrej
+        obtain ⟨s, s0, s1, ex, ey, kx, ky, f0, f1⟩ :=
+          cs_step w hx hy _ _ _ _ x y (by simpa using hacc) (by simpa using hrej)
+        have hl := lerp_lerp p0 p1 t0 t1 s
+        have c0 : t0 ≤ t0 + s * (t1 - t0) := convex_ge t0 t1 s t0 s0 s1 (le_refl _) a01
+        have c1 : t0 + s * (t1 - t0) ≤ t1 := convex_le t0 t1 s t1 s0 s1 a01 (le_refl _)
+        simp only [hl.1, hl.2] at ex ey kx ky f0 f1
+        have hbound := clip_on_bound (PolygonKernels.csPick (w.encode (lerp p0 p1 t0).x (lerp p0 p1 t0).y)
+          (w.encode (lerp p0 p1 t1).x (lerp p0 p1 t1).y)) x y (lerp p0 p1 t0).x (lerp p0 p1 t0).y (lerp p0 p1 t1).x
+          (lerp p0 p1 t1).y w.xmin w.xmax w.ymin w.ymax
+        rw [ex, ey] at hbound
+        rw [ex, ey]
+        split
+        · rename_i hp
+          have hf := f0 hp
+          have hs' := sat_step0 d0 d1 hd0 hd1 _ _ _ _ _ _ _ hsat kx ky hf
+          have hbet' : Between w p0 p1 (t0 + s * (t1 - t0)) t1 := by
+            intro t k0 k1 hc
+            obtain ⟨m0, m1⟩ := hbet t k0 k1 hc
+            refine ⟨?_, m1⟩
+            have aff := lerp_aff p0 p1 t0 (t0 + s * (t1 - t0)) t
+            simp only [Win.contains] at hc
+            rcases hf with ⟨hb, _, hE, _⟩ | ⟨hb, _, hE, _⟩ | ⟨hb, _, hE, _⟩ | ⟨hb, _, hE, _⟩
+            · have := hbound.1 hb
+              exact cut_left_hi _ _ _ _ _ _ aff.2 (by have := clsOf_hi_gt hE; linarith) (by linarith) c0
+            · have := hbound.2.1 hb
+              exact cut_left_lo _ _ _ _ _ _ aff.2 (by have := clsOf_lo.mp hE; linarith) (by linarith) c0
+            · have := hbound.2.2.1 hb
+              exact cut_left_hi _ _ _ _ _ _ aff.1 (by have := clsOf_hi_gt hE; linarith) (by linarith) c0
+            · have := hbound.2.2.2 hb
+              exact cut_left_lo _ _ _ _ _ _ aff.1 (by have := clsOf_lo.mp hE; linarith) (by linarith) c0
+          exact ih (t0 + s * (t1 - t0)) t1 (lerp p0 p1 (t0 + s * (t1 - t0))).x (lerp p0 p1 (t0 + s * (t1 - t0))).y
+            (PolygonKernels.csDone d0 _) d1 (le_trans a0 c0) c1 b1 ⟨hs'.1, hd1, hs'.2⟩ hbet'
+        · rename_i hp
+          have hf := f1 hp
+          have hs' := sat_step1 d0 d1 hd0 hd1 _ _ _ _ _ _ _ hsat kx ky hf
+          have hbet' : Between w p0 p1 t0 (t0 + s * (t1 - t0)) := by
+            intro t k0 k1 hc
+            obtain ⟨m0, m1⟩ := hbet t k0 k1 hc
+            refine ⟨m0, ?_⟩
+            have aff := lerp_aff p0 p1 t1 (t0 + s * (t1 - t0)) t
+            simp only [Win.contains] at hc
+            rcases hf with ⟨hb, _, hE, _⟩ | ⟨hb, _, hE, _⟩ | ⟨hb, _, hE, _⟩ | ⟨hb, _, hE, _⟩
+            · have := hbound.1 hb
+              exact cut_right_hi _ _ _ _ _ _ aff.2 (by have := clsOf_hi_gt hE; linarith) (by linarith) c1
+            · have := hbound.2.1 hb
+              exact cut_right_lo _ _ _ _ _ _ aff.2 (by have := clsOf_lo.mp hE; linarith) (by linarith) c1
+            · have := hbound.2.2.1 hb
+              exact cut_right_hi _ _ _ _ _ _ aff.1 (by have := clsOf_hi_gt hE; linarith) (by linarith) c1
+            · have := hbound.2.2.2 hb
+              exact cut_right_lo _ _ _ _ _ _ aff.1 (by have := clsOf_lo.mp hE; linarith) (by linarith) c1
+          exact ih t0 (t0 + s * (t1 - t0)) (lerp p0 p1 (t0 + s * (t1 - t0))).x (lerp p0 p1 (t0 + s * (t1 - t0))).y
+            d0 (PolygonKernels.csDone d1 _) a0 c0 (le_trans c1 b1) ⟨hd0, hs'.1, hs'.2⟩ hbet'
+
+private theorem aff_le (a d t0 t1 t b : Rat) (h0 : a + t0 * d ≤ b) (h1 : a + t1 * d ≤ b) (k0 : t0 ≤ t) (k1 : t ≤ t1) :
+    a + t * d ≤ b := by
+  rcases le_or_gt 0 d with hd | hd
+  · have := mul_nonneg (sub_nonneg.mpr k1) hd
+    nlinarith
+  · have := mul_nonneg_of_nonpos_of_nonpos (sub_nonpos.mpr k0) hd.le
+    nlinarith
+private theorem aff_ge (a d t0 t1 t b : Rat) (h0 : b ≤ a + t0 * d) (h1 : b ≤ a + t1 * d) (k0 : t0 ≤ t) (k1 : t ≤ t1) :
+    b ≤ a + t * d := by
+  have := aff_le (-a) (-d) t0 t1 t (-b) (by linarith) (by linarith) k0 k1
+  linarith
+
+private theorem cs_master2_start (w : Win) (hx : w.xmin ≤ w.xmax) (hy : w.ymin ≤ w.ymax) (p0 p1 : Pt) (fuel : Nat) :
+    (∀ q0 q1, csClipLine w fuel p0 p1 = .accept q0 q1 →
+      ∃ u0 u1 : Rat, 0 ≤ u0 ∧ u0 ≤ u1 ∧ u1 ≤ 1 ∧ q0 = lerp p0 p1 u0 ∧ q1 = lerp p0 p1 u1 ∧ Between w p0 p1 u0 u1) ∧
+    (csClipLine w fuel p0 p1 = .reject → ∀ t : Rat, 0 ≤ t → t ≤ 1 → ¬ w.contains (lerp p0 p1 t)) := by
+  have e0 : p0 = lerp p0 p1 0 := by simp [lerp]
+  have e1 : p1 = lerp p0 p1 1 := by simp [lerp]
+  have := cs_master2 w hx hy p0 p1 fuel 0 1 p0.x p0.y 0 0 (le_refl _) (by norm_num) (le_refl _)
+    ⟨by norm_num, by norm_num, by simp [Sat, SatAx]⟩ (fun t k0 k1 _ => ⟨k0, k1⟩)
+  rw [← e0, ← e1] at this
+  exact this
+
+/-- `cs_sound` / `cs_complete` at full strength: for every proper window and every segment, an accepted result
+`(q0, q1)` is EXACTLY the part of the segment inside the window: `q0 = P(u0)`, `q1 = P(u1)` with `0 ≤ u0 ≤ u1 ≤ 1` and a
+point `P(t)` of the segment lies in the (closed) window if and only if `u0 ≤ t ≤ u1` (both containments). -/
+theorem cs_accept_exact (w : Win) (hx : w.xmin ≤ w.xmax) (hy : w.ymin ≤ w.ymax) (fuel : Nat) (p0 p1 q0 q1 : Pt)
+    (h : csClipLine w fuel p0 p1 = .accept q0 q1) :
+    ∃ u0 u1 : Rat, 0 ≤ u0 ∧ u0 ≤ u1 ∧ u1 ≤ 1 ∧ q0 = lerp p0 p1 u0 ∧ q1 = lerp p0 p1 u1 ∧
+      ∀ t : Rat, 0 ≤ t → t ≤ 1 → (w.contains (lerp p0 p1 t) ↔ u0 ≤ t ∧ t ≤ u1) := by
+  obtain ⟨u0, u1, a0, a01, a1, e0, e1, hb⟩ := (cs_master2_start w hx hy p0 p1 fuel).1 q0 q1 h
+  obtain ⟨c0, c1⟩ := cs_accept_inside w hx hy fuel p0 p1 q0 q1 h
+  refine ⟨u0, u1, a0, a01, a1, e0, e1, fun t k0 k1 => ⟨hb t k0 k1, fun ⟨m0, m1⟩ => ?_⟩⟩
+  rw [e0] at c0
+  rw [e1] at c1
+  simp only [Win.contains, lerp] at c0 c1 ⊢
+  exact ⟨aff_ge _ _ u0 u1 t _ c0.1 c1.1 m0 m1, aff_le _ _ u0 u1 t _ c0.2.1 c1.2.1 m0 m1,
+    aff_ge _ _ u0 u1 t _ c0.2.2.1 c1.2.2.1 m0 m1, aff_le _ _ u0 u1 t _ c0.2.2.2 c1.2.2.2 m0 m1⟩
+
+/-- `cs_reject_sound` at full strength: a reject in ANY iteration means that no point of the segment lies in the window -/
+theorem cs_reject_sound (w : Win) (hx : w.xmin ≤ w.xmax) (hy : w.ymin ≤ w.ymax) (fuel : Nat) (p0 p1 : Pt)
+    (h : csClipLine w fuel p0 p1 = .reject) : ∀ t : Rat, 0 ≤ t → t ≤ 1 → ¬ w.contains (lerp p0 p1 t) :=
+  (cs_master2_start w hx hy p0 p1 fuel).2 h
+
+/-- the code (fuel 5 is never exhausted) accepts exactly the segments that meet the window -/
+theorem cs_accept_iff_meets (w : Win) (hx : w.xmin ≤ w.xmax) (hy : w.ymin ≤ w.ymax) (p0 p1 : Pt) :
+    (∃ q0 q1, csClipLine w 5 p0 p1 = .accept q0 q1) ↔ ∃ t : Rat, 0 ≤ t ∧ t ≤ 1 ∧ w.contains (lerp p0 p1 t) := by
+  constructor
+  · rintro ⟨q0, q1, h⟩
+    obtain ⟨u0, u1, a0, a01, a1, _, _, hb⟩ := cs_accept_exact w hx hy 5 p0 p1 q0 q1 h
+    exact ⟨u0, a0, le_trans a01 a1, (hb u0 a0 (le_trans a01 a1)).mpr ⟨le_refl _, a01⟩⟩
+  · rintro ⟨t, k0, k1, hc⟩
+    match hr : csClipLine w 5 p0 p1 with
+    | .accept q0 q1 => exact ⟨q0, q1, rfl⟩
+    | .reject => exact absurd hc (cs_reject_sound w hx hy 5 p0 p1 hr t k0 k1)
+    | .fuel => exact absurd hr (cs_terminates_proper_window w hx hy p0 p1)
+
+/-! ### E3. `ConvexClippingPolygon2d.clip_line` (session 3): with `abs_tol = 0` the returned segment is exactly the part of the
+input segment in the intersection of the closed left half-planes of all clipping edges (for a convex counter-clockwise
+clipping polygon: exactly the part inside it); an empty result means an empty intersection -/
+
+private theorem shInsideLine_iff (cs ce p : Pt) : shInsideLine cs ce p = true ↔ 0 ≤ sideOf cs ce p := by
+  simp [shInsideLine, PolygonKernels.shInsideLine, sideOf]
+
+/-- the cut computed by `edge_intersection` for an edge whose end points have different side values (tolerance 0) -/
+private theorem lineCut_zero (cs ce es ee : Pt) (h : sideOf cs ce es ≠ sideOf cs ce ee) :
+    ∃ ip, lineLine true 0 es ee cs ce = some ip ∧
+      ip = lerp es ee (sideOf cs ce es / (sideOf cs ce es - sideOf cs ce ee)) ∧ sideOf cs ce ip = 0 := by
+  have hd : sideOf cs ce es - sideOf cs ce ee
+      = (ce.y - cs.y) * (ee.x - es.x) - (ce.x - cs.x) * (ee.y - es.y) := by simp only [sideOf]; ring
+  have hne : sideOf cs ce es - sideOf cs ce ee ≠ 0 := sub_ne_zero.mpr h
+  have hsome : ∃ ip, lineLine true 0 es ee cs ce = some ip := by
+    simp only [lineLine, PolygonKernels.lineLine]
+    split
+    · rename_i hden
+      exfalso
+      simp only [decide_eq_true_eq] at hden
+      rw [← hd] at hden
+      simp only [PolygonKernels.rabs] at hden
+      split_ifs at hden with hneg
+      · apply hne; linarith
+      · apply hne; linarith [not_lt.mp hneg]
+    · simp
+  obtain ⟨ip, hip⟩ := hsome
+  obtain ⟨_, hl⟩ := lineLine_virtual 0 (le_refl _) es ee cs ce ip hip
+  refine ⟨ip, hip, hl, ?_⟩
+  rw [hl, sideOf_lerp]
+  field_simp
+  ring
+
+private theorem sideOf_aff (c d s e : Pt) (t : Rat) :
+    sideOf c d (lerp s e t) = sideOf c d s + t * (sideOf c d e - sideOf c d s) := by
+  simp only [sideOf, lerp]; ring
+
+private theorem lerp_lerp_pt (p0 p1 : Pt) (t0 t1 σ : Rat) :
+    lerp (lerp p0 p1 t0) (lerp p0 p1 t1) σ = lerp p0 p1 (t0 + σ * (t1 - t0)) := by
+  simp only [lerp, Pt.mk.injEq]; constructor <;> ring
+
+private theorem aff_cut_upper (G D t0 t1 tq : Rat) (h0 : 0 ≤ G + t0 * D) (h1 : G + t1 * D < 0) (hq : G + tq * D = 0)
+    (c01 : t0 ≤ t1) : ∀ t : Rat, (0 ≤ G + t * D ↔ t ≤ tq) := by
+  have hD : D < 0 := by
+    by_contra hc
+    have := mul_nonneg (sub_nonneg.mpr c01) (not_lt.mp hc)
+    nlinarith
+  intro t
+  constructor
+  · intro h
+    by_contra hc
+    have := mul_pos_of_neg_of_neg (by linarith : tq - t < 0) hD
+    nlinarith
+  · intro h
+    have := mul_nonneg_of_nonpos_of_nonpos (by linarith : t - tq ≤ 0) hD.le
+    nlinarith
+
+private theorem aff_cut_lower (G D t0 t1 tq : Rat) (h0 : G + t0 * D < 0) (h1 : 0 ≤ G + t1 * D) (hq : G + tq * D = 0)
+    (c01 : t0 ≤ t1) : ∀ t : Rat, (0 ≤ G + t * D ↔ tq ≤ t) := by
+  have hD : 0 < D := by
+    by_contra hc
+    have := mul_nonneg_of_nonpos_of_nonpos (by linarith : t0 - t1 ≤ 0) (not_lt.mp hc)
+    nlinarith
+  intro t
+  constructor
+  · intro h
+    by_contra hc
+    have := mul_pos (by linarith : 0 < tq - t) hD
+    nlinarith
+  · intro h
+    have := mul_nonneg (by linarith : 0 ≤ t - tq) hD.le
+    nlinarith
+
+private theorem cut_range_in_out (A B : Rat) (hA : 0 ≤ A) (hB : B < 0) : 0 ≤ A / (A - B) ∧ A / (A - B) ≤ 1 := by
+  have hd : 0 < A - B := by linarith
+  exact ⟨div_nonneg hA hd.le, (div_le_one hd).mpr (by linarith)⟩
+
+private theorem cut_range_out_in (A B : Rat) (hA : A < 0) (hB : 0 ≤ B) : 0 ≤ A / (A - B) ∧ A / (A - B) ≤ 1 := by
+  have hd : 0 < B - A := by linarith
+  have e : A / (A - B) = (-A) / (B - A) := by rw [← neg_div_neg_eq]; ring_nf
+  rw [e]
+  exact ⟨div_nonneg (by linarith) hd.le, (div_le_one hd).mpr (by linarith)⟩
+
+/-- the points of the segment `s e` with parameter in `[0, 1]` that satisfy all constraints in `done` are those with
+parameter in `[t0, t1]` -/
+private def Exact (s e : Pt) (done : List (Pt × Pt)) (t0 t1 : Rat) : Prop :=
+  ∀ t : Rat, 0 ≤ t → t ≤ 1 → ((∀ E ∈ done, 0 ≤ sideOf E.1 E.2 (lerp s e t)) ↔ t0 ≤ t ∧ t ≤ t1)
+
+private theorem exact_extend (s e cs ce : Pt) (done : List (Pt × Pt)) (t0 t1 u0 u1 : Rat) (hex : Exact s e done t0 t1)
+    (hk : ∀ t : Rat, t0 ≤ t → t ≤ t1 → (0 ≤ sideOf cs ce (lerp s e t) ↔ u0 ≤ t ∧ t ≤ u1)) (hu0 : t0 ≤ u0) (hu1 : u1 ≤ t1) :
+    Exact s e (done ++ [(cs, ce)]) u0 u1 := by
+  intro t k0 k1
+  constructor
+  · intro hall
+    have hd := (hex t k0 k1).mp (fun E hE => hall E (List.mem_append_left _ hE))
+    exact (hk t hd.1 hd.2).mp (hall (cs, ce) (by simp))
+  · rintro ⟨m0, m1⟩ E hE
+    have hd := (hex t k0 k1).mpr ⟨le_trans hu0 m0, le_trans m1 hu1⟩
+    rcases List.mem_append.mp hE with hE | hE
+    · exact hd E hE
+    · simp only [List.mem_singleton] at hE
+      subst hE
+      exact (hk t (le_trans hu0 m0) (le_trans m1 hu1)).mpr ⟨m0, m1⟩
+
+private theorem clipLine_master (s e : Pt) : ∀ (edges : List Pt) (cs : Pt) (t0 t1 : Rat) (done : List (Pt × Pt)),
+    0 ≤ t0 → t0 ≤ t1 → t1 ≤ 1 → Exact s e done t0 t1 →
+    (∀ q0 q1, clipLineGo 0 cs edges (lerp s e t0) (lerp s e t1) = some (q0, q1) →
+      ∃ u0 u1 : Rat, 0 ≤ u0 ∧ u0 ≤ u1 ∧ u1 ≤ 1 ∧ q0 = lerp s e u0 ∧ q1 = lerp s e u1 ∧
+        Exact s e (done ++ clipEdges cs edges) u0 u1) ∧
+    (clipLineGo 0 cs edges (lerp s e t0) (lerp s e t1) = none →
+      ∀ t : Rat, 0 ≤ t → t ≤ 1 → ¬ (∀ E ∈ done ++ clipEdges cs edges, 0 ≤ sideOf E.1 E.2 (lerp s e t)))
+  | [], cs, t0, t1, done, a0, a01, a1, hex => by
+    simp only [clipLineGo, clipEdges, List.append_nil]
+    refine ⟨fun q0 q1 h => ?_, fun h => by simp at h⟩
+    simp only [Option.some.injEq, Prod.mk.injEq] at h
+    exact ⟨t0, t1, a0, a01, a1, h.1.symm, h.2.symm, hex⟩
+  | ce :: rest, cs, t0, t1, done, a0, a01, a1, hex => by
+    have g := fun t => sideOf_aff cs ce s e t
+    have hassoc : done ++ clipEdges cs (ce :: rest) = (done ++ [(cs, ce)]) ++ clipEdges ce rest := by
+      simp [clipEdges]
+    rw [hassoc]
+    simp only [clipLineGo]
+    by_cases hs : shInsideLine cs ce (lerp s e t0) = true
+    · rw [if_pos hs]
+      have gs : 0 ≤ sideOf cs ce (lerp s e t0) := (shInsideLine_iff _ _ _).mp hs
+      by_cases he : shInsideLine cs ce (lerp s e t1) = true
+      · -- both end points inside: nothing changes
+        simp only [he, Bool.not_true, Bool.false_eq_true, if_false]
+        have ge : 0 ≤ sideOf cs ce (lerp s e t1) := (shInsideLine_iff _ _ _).mp he
+        apply clipLine_master s e rest ce t0 t1 (done ++ [(cs, ce)]) a0 a01 a1
+        apply exact_extend s e cs ce done t0 t1 t0 t1 hex _ (le_refl _) (le_refl _)
+        intro t m0 m1
+        refine ⟨fun _ => ⟨m0, m1⟩, fun _ => ?_⟩
+        rw [g] at gs ge ⊢
+        exact aff_ge _ _ t0 t1 t 0 gs ge m0 m1
+      · -- the end point is cut off
+        have ge : sideOf cs ce (lerp s e t1) < 0 := by
+          have : ¬ 0 ≤ sideOf cs ce (lerp s e t1) := fun h => he ((shInsideLine_iff _ _ _).mpr h)
+          exact not_le.mp this
+        simp only [he, Bool.not_false, if_true]
+        obtain ⟨ip, hip, hl, hz⟩ := lineCut_zero cs ce (lerp s e t0) (lerp s e t1) (by linarith)
+        have hr := cut_range_in_out _ _ gs ge
+        rw [lerp_lerp_pt] at hl
+        rw [hip, Option.getD_some, hl]
+        rw [hl] at hz
+        generalize sideOf cs ce (lerp s e t0) / (sideOf cs ce (lerp s e t0) - sideOf cs ce (lerp s e t1)) = σ at hr hz hl
+        have c0 : t0 ≤ t0 + σ * (t1 - t0) := convex_ge t0 t1 σ t0 hr.1 hr.2 (le_refl _) a01
+        have c1 : t0 + σ * (t1 - t0) ≤ t1 := convex_le t0 t1 σ t1 hr.1 hr.2 a01 (le_refl _)
+        apply clipLine_master s e rest ce t0 (t0 + σ * (t1 - t0)) (done ++ [(cs, ce)]) a0 c0 (le_trans c1 a1)
+        apply exact_extend s e cs ce done t0 t1 t0 _ hex _ (le_refl _) c1
+        intro t m0 m1
+        rw [g] at gs ge hz ⊢
+        have := aff_cut_upper _ _ t0 t1 _ gs ge hz a01 t
+        rw [this]
+        exact ⟨fun h => ⟨m0, h⟩, fun h => h.2⟩
+    · rw [if_neg hs]
+      have gs : sideOf cs ce (lerp s e t0) < 0 := by
+        have : ¬ 0 ≤ sideOf cs ce (lerp s e t0) := fun h => hs ((shInsideLine_iff _ _ _).mpr h)
+        exact not_le.mp this
+      by_cases he : shInsideLine cs ce (lerp s e t1) = true
+      · -- the start point is cut off
+        rw [if_pos he]
+        have ge : 0 ≤ sideOf cs ce (lerp s e t1) := (shInsideLine_iff _ _ _).mp he
+        obtain ⟨ip, hip, hl, hz⟩ := lineCut_zero cs ce (lerp s e t0) (lerp s e t1) (by linarith)
+        have hr := cut_range_out_in _ _ gs ge
+        rw [lerp_lerp_pt] at hl
+        rw [hip, Option.getD_some, hl]
+        rw [hl] at hz
+        generalize sideOf cs ce (lerp s e t0) / (sideOf cs ce (lerp s e t0) - sideOf cs ce (lerp s e t1)) = σ at hr hz hl
+        have c0 : t0 ≤ t0 + σ * (t1 - t0) := convex_ge t0 t1 σ t0 hr.1 hr.2 (le_refl _) a01
+        have c1 : t0 + σ * (t1 - t0) ≤ t1 := convex_le t0 t1 σ t1 hr.1 hr.2 a01 (le_refl _)
+        apply clipLine_master s e rest ce (t0 + σ * (t1 - t0)) t1 (done ++ [(cs, ce)]) (le_trans a0 c0) c1 a1
+        apply exact_extend s e cs ce done t0 t1 _ t1 hex _ c0 (le_refl _)
+        intro t m0 m1
+        rw [g] at gs ge hz ⊢
+        have := aff_cut_lower _ _ t0 t1 _ gs ge hz a01 t
+        rw [this]
+        exact ⟨fun h => ⟨h, m1⟩, fun h => h.1⟩
+      · -- both end points outside this half-plane: nothing of the segment is left
+        rw [if_neg he]
+        have ge : sideOf cs ce (lerp s e t1) < 0 := by
+          have : ¬ 0 ≤ sideOf cs ce (lerp s e t1) := fun h => he ((shInsideLine_iff _ _ _).mpr h)
+          exact not_le.mp this
+        refine ⟨fun q0 q1 h => by simp at h, fun _ t k0 k1 hall => ?_⟩
+        have hd := (hex t k0 k1).mp (fun E hE => hall E (List.mem_append_left _ (List.mem_append_left _ hE)))
+        have hc := hall (cs, ce) (List.mem_append_left _ (by simp))
+        rw [g] at gs ge hc
+        have := aff_lt _ _ t0 t1 t 0 gs ge hd.1 hd.2
+        linarith
+
+/-- `ConvexClippingPolygon2d.clip_line` with tolerance 0, for ANY clipping polygon and ANY segment: a returned segment
+`(q0, q1) = (P(u0), P(u1))`, `0 ≤ u0 ≤ u1 ≤ 1`, is EXACTLY the set of points `P(t)` of the input segment that lie in the closed left
+half-plane of every clipping edge (both containments) -/
+theorem clipLineConvex_exact (clip : List Pt) (s e q0 q1 : Pt) (h : clipLineConvex clip 0 s e = some (q0, q1)) :
+    ∃ u0 u1 : Rat, 0 ≤ u0 ∧ u0 ≤ u1 ∧ u1 ≤ 1 ∧ q0 = lerp s e u0 ∧ q1 = lerp s e u1 ∧
+      ∀ t : Rat, 0 ≤ t → t ≤ 1 → ((∀ E ∈ polygonEdges clip, 0 ≤ sideOf E.1 E.2 (lerp s e t)) ↔ u0 ≤ t ∧ t ≤ u1) := by
+  have e0 : s = lerp s e 0 := by simp [lerp]
+  have e1 : e = lerp s e 1 := by simp [lerp]
+  cases clip with
+  | nil =>
+    simp only [clipLineConvex, Option.some.injEq, Prod.mk.injEq] at h
+    refine ⟨0, 1, le_refl _, by norm_num, le_refl _, h.1 ▸ e0, h.2 ▸ e1, fun t k0 k1 => ?_⟩
+    simp [polygonEdges, k0, k1]
+  | cons c cs =>
+    simp only [clipLineConvex] at h
+    have hm := (clipLine_master s e (c :: cs) (lastPt c cs) 0 1 [] (le_refl _) (by norm_num) (le_refl _)
+      (fun t k0 k1 => by simp [k0, k1])).1 q0 q1 (by rw [← e0, ← e1]; exact h)
+    obtain ⟨u0, u1, a0, a01, a1, f0, f1, hex⟩ := hm
+    exact ⟨u0, u1, a0, a01, a1, f0, f1, fun t k0 k1 => by simpa [polygonEdges] using hex t k0 k1⟩
+
+/-- an empty result means that no point of the segment lies in all half-planes -/
+theorem clipLineConvex_none (clip : List Pt) (s e : Pt) (h : clipLineConvex clip 0 s e = none) :
+    ∀ t : Rat, 0 ≤ t → t ≤ 1 → ¬ (∀ E ∈ polygonEdges clip, 0 ≤ sideOf E.1 E.2 (lerp s e t)) := by
+  have e0 : s = lerp s e 0 := by simp [lerp]
+  have e1 : e = lerp s e 1 := by simp [lerp]
+  cases clip with
+  | nil => simp [clipLineConvex] at h
+  | cons c cs =>
+    simp only [clipLineConvex] at h
+    have hm := (clipLine_master s e (c :: cs) (lastPt c cs) 0 1 [] (le_refl _) (by norm_num) (le_refl _)
+      (fun t k0 k1 => by simp [k0, k1])).2 (by rw [← e0, ← e1]; exact h)
+    simpa [polygonEdges] using hm
+
+private theorem clipLine_seg_master (tol : Rat) (htol : 0 ≤ tol) (s e : Pt) : ∀ (edges : List Pt) (cs : Pt) (t0 t1 : Rat),
+    0 ≤ t0 → t0 ≤ t1 → t1 ≤ 1 →
+    ∀ q0 q1, clipLineGo tol cs edges (lerp s e t0) (lerp s e t1) = some (q0, q1) →
+      ∃ u0 u1 : Rat, 0 ≤ u0 ∧ u0 ≤ u1 ∧ u1 ≤ 1 ∧ q0 = lerp s e u0 ∧ q1 = lerp s e u1
+  | [], cs, t0, t1, a0, a01, a1, q0, q1, h => by
+    simp only [clipLineGo, Option.some.injEq, Prod.mk.injEq] at h
+    exact ⟨t0, t1, a0, a01, a1, h.1.symm, h.2.symm⟩
+  | ce :: rest, cs, t0, t1, a0, a01, a1, q0, q1, h => by
+    simp only [clipLineGo] at h
+    by_cases hs : shInsideLine cs ce (lerp s e t0) = true
+    · rw [if_pos hs] at h
+      have gs : 0 ≤ sideOf cs ce (lerp s e t0) := (shInsideLine_iff _ _ _).mp hs
+      by_cases he : shInsideLine cs ce (lerp s e t1) = true
+      · simp only [he, Bool.not_true, Bool.false_eq_true, if_false] at h
+        exact clipLine_seg_master tol htol s e rest ce t0 t1 a0 a01 a1 q0 q1 h
+      · have ge : sideOf cs ce (lerp s e t1) < 0 := by
+          have : ¬ 0 ≤ sideOf cs ce (lerp s e t1) := fun hh => he ((shInsideLine_iff _ _ _).mpr hh)
+          exact not_le.mp this
+        simp only [he, Bool.not_false, if_true] at h
+        match hll : lineLine true tol (lerp s e t0) (lerp s e t1) cs ce with
+        | none =>
+          rw [hll, Option.getD_none] at h
+          exact clipLine_seg_master tol htol s e rest ce t0 t1 a0 a01 a1 q0 q1 h
+        | some ip =>
+          rw [hll, Option.getD_some] at h
+          obtain ⟨_, hl⟩ := lineLine_virtual tol htol _ _ cs ce ip hll
+          have hr := cut_range_in_out _ _ gs ge
+          rw [lerp_lerp_pt] at hl
+          rw [hl] at h
+          exact clipLine_seg_master tol htol s e rest ce t0 _ a0
+            (convex_ge t0 t1 _ t0 hr.1 hr.2 (le_refl _) a01)
+            (le_trans (convex_le t0 t1 _ t1 hr.1 hr.2 a01 (le_refl _)) a1) q0 q1 h
+    · rw [if_neg hs] at h
+      have gs : sideOf cs ce (lerp s e t0) < 0 := by
+        have : ¬ 0 ≤ sideOf cs ce (lerp s e t0) := fun hh => hs ((shInsideLine_iff _ _ _).mpr hh)
+        exact not_le.mp this
+      by_cases he : shInsideLine cs ce (lerp s e t1) = true
+      · rw [if_pos he] at h
+        have ge : 0 ≤ sideOf cs ce (lerp s e t1) := (shInsideLine_iff _ _ _).mp he
+        match hll : lineLine true tol (lerp s e t0) (lerp s e t1) cs ce with
+        | none =>
+          rw [hll, Option.getD_none] at h
+          exact clipLine_seg_master tol htol s e rest ce t0 t1 a0 a01 a1 q0 q1 h
+        | some ip =>
+          rw [hll, Option.getD_some] at h
+          obtain ⟨_, hl⟩ := lineLine_virtual tol htol _ _ cs ce ip hll
+          have hr := cut_range_out_in _ _ gs ge
+          rw [lerp_lerp_pt] at hl
+          rw [hl] at h
+          exact clipLine_seg_master tol htol s e rest ce _ t1
+            (le_trans a0 (convex_ge t0 t1 _ t0 hr.1 hr.2 (le_refl _) a01))
+            (convex_le t0 t1 _ t1 hr.1 hr.2 a01 (le_refl _)) a1 q0 q1 h
+      · rw [if_neg he] at h
+        simp at h
+
+/-- `ConvexClippingPolygon2d.clip_line` for EVERY tolerance `abs_tol ≥ 0`: the returned end points are points
+`P(u0)`, `P(u1)` of the input segment with `0 ≤ u0 ≤ u1 ≤ 1` (the direction of the line is kept, nothing outside the segment is returned) -/
+theorem clipLineConvex_on_segment (clip : List Pt) (tol : Rat) (htol : 0 ≤ tol) (s e q0 q1 : Pt)
+    (h : clipLineConvex clip tol s e = some (q0, q1)) :
+    ∃ u0 u1 : Rat, 0 ≤ u0 ∧ u0 ≤ u1 ∧ u1 ≤ 1 ∧ q0 = lerp s e u0 ∧ q1 = lerp s e u1 := by
+  have e0 : s = lerp s e 0 := by simp [lerp]
+  have e1 : e = lerp s e 1 := by simp [lerp]
+  cases clip with
+  | nil =>
+    simp only [clipLineConvex, Option.some.injEq, Prod.mk.injEq] at h
+    exact ⟨0, 1, le_refl _, by norm_num, le_refl _, h.1 ▸ e0, h.2 ▸ e1⟩
+  | cons c cs =>
+    simp only [clipLineConvex] at h
+    exact clipLine_seg_master tol htol s e (c :: cs) (lastPt c cs) 0 1 (le_refl _) (by norm_num) (le_refl _) q0 q1
+      (by rw [← e0, ← e1]; exact h)
+
+/-! ### E4. Sutherland-Hodgman conserves the signed area across a cut (session 3, tolerance 0): clipping a polygon against an edge
+and against the reversed edge yields two polygons whose signed areas add up to the signed area of the polygon.
+Idea: measure the area as a fan around a point of the clipping line; then the bridging edges along the line contribute nothing
+and every polygon edge contributes its part on either side. -/
+
+private theorem fanGo_append (o : Pt) (prev : Pt) (l1 l2 : List Pt) :
+    fanGo o prev (l1 ++ l2) = fanGo o prev l1 + fanGo o (lastPt prev l1) l2 := by
+  induction l1 generalizing prev with
+  | nil => simp [fanGo, lastPt]
+  | cons q qs ih => simp only [List.cons_append, fanGo, lastPt, ih]; ring
+
+private theorem lastPt_append (prev : Pt) (l1 l2 : List Pt) : lastPt prev (l1 ++ l2) = lastPt (lastPt prev l1) l2 := by
+  induction l1 generalizing prev with
+  | nil => rfl
+  | cons q qs ih => simp only [List.cons_append, lastPt, ih]
+
+/-- three points on the line `c d`: the fan term vanishes -/
+private theorem sideOf_on_line (c d o p q : Pt) (hne : c ≠ d) (ho : sideOf c d o = 0) (hp : sideOf c d p = 0)
+    (hq : sideOf c d q = 0) : sideOf o p q = 0 := by
+  simp only [sideOf] at *
+  have g1 : (d.x - c.x) * ((p.x - o.x) * (q.y - o.y) - (p.y - o.y) * (q.x - o.x)) = 0 := by
+    linear_combination (p.x - o.x) * hq - (p.x - o.x) * ho - (q.x - o.x) * hp + (q.x - o.x) * ho
+  have g2 : (d.y - c.y) * ((p.x - o.x) * (q.y - o.y) - (p.y - o.y) * (q.x - o.x)) = 0 := by
+    linear_combination (p.y - o.y) * hq - (p.y - o.y) * ho - (q.y - o.y) * hp + (q.y - o.y) * ho
+  by_cases hdx : d.x - c.x = 0
+  · by_cases hdy : d.y - c.y = 0
+    · exfalso
+      apply hne
+      cases c; cases d
+      simp only [Pt.mk.injEq]
+      constructor <;> linarith
+    · exact (mul_eq_zero.mp g2).resolve_left hdy
+  · exact (mul_eq_zero.mp g1).resolve_left hdx
+
+private theorem sideOf_split (o a b : Pt) (σ : Rat) :
+    sideOf o a (lerp a b σ) + sideOf o (lerp a b σ) b = sideOf o a b := by
+  simp only [sideOf, lerp]; ring
+
+/-- the cut point of the edge `es ee` with the line `c d` -/
+private def cutPt (c d es ee : Pt) : Pt := lerp es ee (sideOf c d es / (sideOf c d es - sideOf c d ee))
+
+private theorem cutPt_swap (c d es ee : Pt) : cutPt d c es ee = cutPt c d es ee := by
+  unfold cutPt
+  rw [sideOf_swap c d es, sideOf_swap c d ee]
+  congr 1
+  rw [← neg_div_neg_eq]
+  ring_nf
+
+private theorem shCut_zero (c d es ee : Pt) (h : sideOf c d es ≠ sideOf c d ee) :
+    shCut c d 0 es ee = [cutPt c d es ee] ∧ sideOf c d (cutPt c d es ee) = 0 := by
+  obtain ⟨ip, hip, hl, hz⟩ := lineCut_zero c d es ee h
+  unfold shCut
+  rw [hip]
+  simp only
+  rw [hl] at hz ⊢
+  exact ⟨rfl, hz⟩
+
+/-- what one polygon edge emits in `clip_polygon` (the body of the inner loop) -/
+private def emit (c d es ee : Pt) : List Pt :=
+  if shInside c d ee then (if !shInside c d es then shCut c d 0 es ee else []) ++ [ee]
+  else if shInside c d es then shCut c d 0 es ee else []
+
+private theorem clipEdgeGo_cons (c d es ee : Pt) (rest : List Pt) :
+    clipEdgeGo c d 0 es (ee :: rest) = emit c d es ee ++ clipEdgeGo c d 0 ee rest := rfl
+
+/-- the fan contribution of the part of the edge `es ee` on the inner side of the line -/
+private def part (c d o es ee : Pt) : Rat :=
+  if shInside c d ee then (if shInside c d es then sideOf o es ee else sideOf o (cutPt c d es ee) ee)
+  else (if shInside c d es then sideOf o es (cutPt c d es ee) else 0)
+
+/-- the vertex emitted last (or carried along) is the current vertex when that is inside, a point of the line otherwise -/
+private def Carry (c d v prev : Pt) : Prop := if shInside c d v = true then prev = v else sideOf c d prev = 0
+
+private theorem side_step (c d o es ee prev : Pt) (hne : c ≠ d) (ho : sideOf c d o = 0) (hprev : Carry c d es prev) :
+    fanGo o prev (emit c d es ee) = part c d o es ee ∧ Carry c d ee (lastPt prev (emit c d es ee)) := by
+  unfold emit part Carry at *
+  by_cases he : shInside c d ee = true
+  · rw [if_pos he, if_pos he, if_pos he]
+    by_cases hs : shInside c d es = true
+    · rw [if_pos hs] at hprev
+      simp only [hs, Bool.not_true, Bool.false_eq_true, if_false, List.nil_append, if_true, fanGo, lastPt, add_zero, hprev,
+        and_self]
+    · rw [if_neg hs] at hprev
+      have hne2 : sideOf c d es ≠ sideOf c d ee := by
+        have h1 := (shInside_iff c d ee).mp he
+        have h2 : ¬ 0 < sideOf c d es := fun h => hs ((shInside_iff c d es).mpr h)
+        intro h; linarith
+      obtain ⟨hc, hz⟩ := shCut_zero c d es ee hne2
+      simp only [hs, Bool.not_false, if_true, hc, Bool.false_eq_true, if_false, List.singleton_append, fanGo, lastPt, add_zero]
+      rw [sideOf_on_line c d o prev _ hne ho hprev hz]
+      simp
+  · rw [if_neg he, if_neg he, if_neg he]
+    by_cases hs : shInside c d es = true
+    · rw [if_pos hs] at hprev
+      have hne2 : sideOf c d es ≠ sideOf c d ee := by
+        have h1 := (shInside_iff c d es).mp hs
+        have h2 : ¬ 0 < sideOf c d ee := fun h => he ((shInside_iff c d ee).mpr h)
+        intro h; linarith
+      obtain ⟨hc, hz⟩ := shCut_zero c d es ee hne2
+      simp only [hs, if_true, hc, fanGo, lastPt, add_zero, hprev, hz, and_self]
+    · rw [if_neg hs] at hprev
+      simp only [hs, Bool.false_eq_true, if_false, fanGo, lastPt, hprev, and_self]
+
+/-- both sides together account for the whole edge -/
+private theorem part_add (c d es ee : Pt) (hne : c ≠ d) :
+    part c d c es ee + part d c c es ee = sideOf c es ee := by
+  have hcc : sideOf c d c = 0 := by simp only [sideOf]; ring
+  have in_p : ∀ v, shInside c d v = true ↔ 0 < sideOf c d v := fun v => shInside_iff c d v
+  have in_m : ∀ v, shInside d c v = true ↔ sideOf c d v < 0 := by
+    intro v; rw [shInside_iff, sideOf_swap]; constructor <;> intro h <;> linarith
+  have hcut : ∀ (h : sideOf c d es ≠ sideOf c d ee), sideOf c d (cutPt c d es ee) = 0 := fun h => (shCut_zero c d es ee h).2
+  have hsplit := sideOf_split c es ee (sideOf c d es / (sideOf c d es - sideOf c d ee))
+  have online : ∀ p q, sideOf c d p = 0 → sideOf c d q = 0 → sideOf c p q = 0 :=
+    fun p q hp hq => sideOf_on_line c d c p q hne hcc hp hq
+  unfold part
+  rw [cutPt_swap c d es ee]
+  change sideOf c es (cutPt c d es ee) + sideOf c (cutPt c d es ee) ee = sideOf c es ee at hsplit
+  rcases lt_trichotomy (sideOf c d es) 0 with hA | hA | hA <;> rcases lt_trichotomy (sideOf c d ee) 0 with hB | hB | hB
+  · -- (-,-)
+    have a1 : ¬ shInside c d ee = true := fun h => by have := (in_p ee).mp h; linarith
+    have a2 : ¬ shInside c d es = true := fun h => by have := (in_p es).mp h; linarith
+    simp only [a1, a2, (in_m ee).mpr hB, (in_m es).mpr hA, if_true, if_false, zero_add, Bool.false_eq_true]
+  · -- (-,0)
+    have a1 : ¬ shInside c d ee = true := fun h => by have := (in_p ee).mp h; linarith
+    have a2 : ¬ shInside c d es = true := fun h => by have := (in_p es).mp h; linarith
+    have a3 : ¬ shInside d c ee = true := fun h => by have := (in_m ee).mp h; linarith
+    simp only [a1, a2, a3, (in_m es).mpr hA, if_true, if_false, zero_add, Bool.false_eq_true]
+    have := online (cutPt c d es ee) ee (hcut (by linarith)) hB
+    linarith
+  · -- (-,+)
+    have a2 : ¬ shInside c d es = true := fun h => by have := (in_p es).mp h; linarith
+    have a3 : ¬ shInside d c ee = true := fun h => by have := (in_m ee).mp h; linarith
+    simp only [a2, a3, (in_p ee).mpr hB, (in_m es).mpr hA, if_true, if_false, Bool.false_eq_true]
+    linarith
+  · -- (0,-)
+    have a1 : ¬ shInside c d ee = true := fun h => by have := (in_p ee).mp h; linarith
+    have a2 : ¬ shInside c d es = true := fun h => by have := (in_p es).mp h; linarith
+    have a4 : ¬ shInside d c es = true := fun h => by have := (in_m es).mp h; linarith
+    simp only [a1, a2, a4, (in_m ee).mpr hB, if_true, if_false, zero_add, Bool.false_eq_true]
+    have := online es (cutPt c d es ee) hA (hcut (by linarith))
+    linarith
+  · -- (0,0)
+    have a1 : ¬ shInside c d ee = true := fun h => by have := (in_p ee).mp h; linarith
+    have a2 : ¬ shInside c d es = true := fun h => by have := (in_p es).mp h; linarith
+    have a3 : ¬ shInside d c ee = true := fun h => by have := (in_m ee).mp h; linarith
+    have a4 : ¬ shInside d c es = true := fun h => by have := (in_m es).mp h; linarith
+    simp only [a1, a2, a3, a4, if_false, add_zero, Bool.false_eq_true]
+    exact (online es ee hA hB).symm
+  · -- (0,+)
+    have a2 : ¬ shInside c d es = true := fun h => by have := (in_p es).mp h; linarith
+    have a3 : ¬ shInside d c ee = true := fun h => by have := (in_m ee).mp h; linarith
+    have a4 : ¬ shInside d c es = true := fun h => by have := (in_m es).mp h; linarith
+    simp only [a2, a3, a4, (in_p ee).mpr hB, if_true, if_false, add_zero, Bool.false_eq_true]
+    have := online es (cutPt c d es ee) hA (hcut (by linarith))
+    linarith
+  · -- (+,-)
+    have a1 : ¬ shInside c d ee = true := fun h => by have := (in_p ee).mp h; linarith
+    have a4 : ¬ shInside d c es = true := fun h => by have := (in_m es).mp h; linarith
+    simp only [a1, a4, (in_p es).mpr hA, (in_m ee).mpr hB, if_true, if_false, Bool.false_eq_true]
+    linarith
+  · -- (+,0)
+    have a1 : ¬ shInside c d ee = true := fun h => by have := (in_p ee).mp h; linarith
+    have a3 : ¬ shInside d c ee = true := fun h => by have := (in_m ee).mp h; linarith
+    have a4 : ¬ shInside d c es = true := fun h => by have := (in_m es).mp h; linarith
+    simp only [a1, a3, a4, (in_p es).mpr hA, if_true, if_false, add_zero, Bool.false_eq_true]
+    have := online (cutPt c d es ee) ee (hcut (by linarith)) hB
+    linarith
+  · -- (+,+)
+    have a3 : ¬ shInside d c ee = true := fun h => by have := (in_m ee).mp h; linarith
+    have a4 : ¬ shInside d c es = true := fun h => by have := (in_m es).mp h; linarith
+    simp only [a3, a4, (in_p es).mpr hA, (in_p ee).mpr hB, if_true, if_false, add_zero, Bool.false_eq_true]
+
+private def partSum (c d o : Pt) (es : Pt) : List Pt → Rat
+  | [] => 0
+  | ee :: rest => part c d o es ee + partSum c d o ee rest
+
+private theorem go_sum (c d o : Pt) (hne : c ≠ d) (ho : sideOf c d o = 0) : ∀ (l : List Pt) (es prev : Pt), Carry c d es prev →
+    fanGo o prev (clipEdgeGo c d 0 es l) = partSum c d o es l ∧
+      Carry c d (lastPt es l) (lastPt prev (clipEdgeGo c d 0 es l))
+  | [], es, prev, h => by simpa [clipEdgeGo, fanGo, partSum, lastPt] using h
+  | ee :: rest, es, prev, h => by
+    obtain ⟨h1, h2⟩ := side_step c d o es ee prev hne ho h
+    obtain ⟨h3, h4⟩ := go_sum c d o hne ho rest ee _ h2
+    rw [clipEdgeGo_cons, fanGo_append, lastPt_append, h1, h3]
+    exact ⟨rfl, h4⟩
+
+private theorem partSum_add (c d : Pt) (hne : c ≠ d) : ∀ (l : List Pt) (es : Pt),
+    partSum c d c es l + partSum d c c es l = fanGo c es l
+  | [], _ => by simp [partSum, fanGo]
+  | ee :: rest, es => by
+    simp only [partSum, fanGo]
+    have := part_add c d es ee hne
+    have := partSum_add c d hne rest ee
+    linarith
+
+/-- one side of the cut, as a closed polygon: its fan area around a point of the line is the sum of the parts -/
+private theorem clipEdge_fan (c d o : Pt) (hne : c ≠ d) (ho : sideOf c d o = 0) (v : Pt) (vs : List Pt) :
+    fanArea o (clipEdgeGo c d 0 (lastPt v vs) (v :: vs)) = partSum c d o (lastPt v vs) (v :: vs) := by
+  have hcarry0 : Carry c d (lastPt v vs) (if shInside c d (lastPt v vs) = true then lastPt v vs else o) := by
+    unfold Carry
+    split_ifs <;> simp_all
+  obtain ⟨h1, h2⟩ := go_sum c d o hne ho (v :: vs) (lastPt v vs) _ hcarry0
+  match hO : clipEdgeGo c d 0 (lastPt v vs) (v :: vs) with
+  | [] =>
+    rw [hO] at h1
+    simp only [fanGo] at h1
+    simp only [fanArea]
+    exact h1
+  | o1 :: os =>
+    rw [hO] at h2
+    have hl : lastPt (lastPt v vs) (v :: vs) = lastPt v vs := rfl
+    rw [hl] at h2
+    simp only [lastPt] at h2
+    obtain ⟨h3, _⟩ := go_sum c d o hne ho (v :: vs) (lastPt v vs) (lastPt o1 os) h2
+    rw [hO] at h3
+    simp only [fanArea]
+    exact h3
+
+private theorem fanGo_origin (o o' : Pt) : ∀ (l : List Pt) (prev : Pt),
+    fanGo o prev l = fanGo o' prev l +
+      (((o.x - o'.x) * prev.y - (o.y - o'.y) * prev.x) - ((o.x - o'.x) * (lastPt prev l).y - (o.y - o'.y) * (lastPt prev l).x))
+  | [], prev => by simp [fanGo, lastPt]
+  | q :: qs, prev => by
+    simp only [fanGo, lastPt]
+    rw [fanGo_origin o o' qs q]
+    simp only [sideOf]
+    ring
+
+/-- the fan area of a closed polygon does not depend on the origin: it is twice the signed area -/
+theorem fanArea_origin (o o' : Pt) (l : List Pt) : fanArea o l = fanArea o' l := by
+  match l with
+  | [] => rfl
+  | v :: vs =>
+    simp only [fanArea]
+    rw [fanGo_origin o o' (v :: vs) (lastPt v vs)]
+    have : lastPt (lastPt v vs) (v :: vs) = lastPt v vs := rfl
+    rw [this]
+    ring
+
+/-- `clipEdge_area_split` (Sutherland-Hodgman conserves the signed area across a cut, tolerance 0): for every polygon without a
+repeated closing vertex (simple or not, convex or not) and every proper clipping edge, the polygon clipped against the edge and the
+polygon clipped against the reversed edge have signed areas that add up to the signed area of the polygon -/
+theorem clipEdge_area_split (c d : Pt) (hne : c ≠ d) (poly : List Pt) (hopen : popClosing poly 0 = poly) (o : Pt) :
+    fanArea o (clipEdge c d 0 poly) + fanArea o (clipEdge d c 0 poly) = fanArea o poly := by
+  rw [fanArea_origin o c (clipEdge c d 0 poly), fanArea_origin o c (clipEdge d c 0 poly), fanArea_origin o c poly]
+  unfold clipEdge
+  rw [hopen]
+  match poly with
+  | [] => simp [fanArea]
+  | v :: vs =>
+    have hcc : sideOf c d c = 0 := by simp only [sideOf]; ring
+    have hdc : sideOf d c c = 0 := by simp only [sideOf]; ring
+    dsimp only
+    rw [clipEdge_fan c d c hne hcc v vs, clipEdge_fan d c c (Ne.symm hne) hdc v vs, partSum_add c d hne]
+    rfl
+
 /-! ## G. convex hull (`convex_hull_2d`, Andrew's monotone chain as coded) -/
 
 private theorem hullPush_subset (floor : Nat) (stack : List Pt) (v : Pt) :
@@ -1662,6 +2553,75 @@ theorem hull_upper_left_turns_partial (pts h : List Pt) (hh : convexHull pts = s
     | cons v vs ih => intro init fl h; exact ih _ fl (hullPush_turns fl init v h)
   exact this _ _ _ (turnsOkFrom_high _ _ (by omega))
 
+/-! ### G2. the complete statements about `convex_hull_2d` (session 3; proofs in `Lemmas/PolygonHull.lean`)
+
+The loop invariant (`Lemmas.Hull.hullPush_inv`): after pushing `v`, the stack is a strictly monotone chain of strict left
+turns and every point processed so far lies on or left of every chain edge.  The only geometry is the transitivity of the
+cross-product order on a half plane (`Lemmas.Hull.half_trans`), applied to differences of lexicographically ordered points. -/
+
+private theorem llt_iff (a b : Pt) : Lemmas.Hull.llt a b ↔ lexLt a b := by
+  simp only [Lemmas.Hull.llt, Lemmas.Hull.lpos, lexLt]
+  constructor
+  · rintro (h | ⟨h1, h2⟩)
+    · left; linarith
+    · right; exact ⟨by linarith, by linarith⟩
+  · rintro (h | ⟨h1, h2⟩)
+    · left; linarith
+    · right; exact ⟨by linarith, by linarith⟩
+
+/-- `set(points)` + `sort()`: the sorted list has no duplicates and the same members, so its length is the number of
+distinct input points -/
+theorem sortDedup_distinct (pts : List Pt) : (sortDedup pts).Nodup ∧ ∀ q, q ∈ sortDedup pts ↔ q ∈ pts :=
+  ⟨Lemmas.Hull.pairwise_nodup (Lemmas.Hull.sortDedup_spec pts).1, (Lemmas.Hull.sortDedup_spec pts).2⟩
+
+/-- `convex_hull_2d` raises `ValueError` exactly for fewer than three distinct points -/
+theorem hull_error_iff (pts : List Pt) : convexHull pts = none ↔ (sortDedup pts).length < 3 :=
+  Lemmas.Hull.hull_none_iff pts
+
+/-- the second loop uses the same test as the first one (the model uses one `hullPush` for both passes) -/
+theorem hull_pop_tests_agree : PolygonKernels.hullPopUpper = PolygonKernels.hullPop := rfl
+
+/-- persistence of the lower chain: with the floor `t = k + 1` of the second loop a push never removes anything below the
+top of the first chain: the push acts on the upper part of the stack alone -/
+theorem hull_lower_chain_kept (T U : List Pt) (v : Pt) : hullPush (T.length + 2) (U ++ T) v = hullPush 2 U v ++ T :=
+  Lemmas.Hull.hullPush_shift T v U
+
+/-- `hull_contains_all`: every input point lies on or left of every directed edge of the returned closed polyline
+(all point lists: duplicates, collinear runs, any order) -/
+theorem hull_contains_all (pts h : List Pt) (hh : convexHull pts = some h) :
+    ∀ p ∈ pts, ∀ e ∈ pairsOf h, 0 ≤ hcross e.1 e.2 p :=
+  Lemmas.Hull.hull_contains_all pts h hh
+
+/-- the result is a closed polyline that starts and ends in the smallest input point -/
+theorem hull_closed (pts h : List Pt) (hh : convexHull pts = some h) :
+    ∃ v0, h.head? = some v0 ∧ h.getLast? = some v0 ∧ v0 ∈ pts ∧ ∀ p ∈ pts, lexLe v0 p := by
+  obtain ⟨v0, h1, h2, h3, h4⟩ := Lemmas.Hull.hull_closed pts h hh
+  refine ⟨v0, h1, h2, h3, fun p hp => ?_⟩
+  rcases h4 p hp with h | h
+  · exact Or.inl ((llt_iff _ _).mp h)
+  · exact Or.inr h.symm
+
+/-- `hull_convex`: unless all input points lie on one line, EVERY corner of the returned closed polyline is a strict left
+turn: the corners inside both chains, the junction of the two passes, and the closing corner at the first vertex
+(`h ++ [h[1]]` lists the corners cyclically because `h` is closed) -/
+theorem hull_convex (pts h : List Pt) (hh : convexHull pts = some h) (hnc : ¬ allCollinear pts) :
+    ∀ t ∈ triplesOf (h ++ (h.drop 1).take 1), 0 < hcross t.1 t.2.1 t.2.2 :=
+  Lemmas.Hull.hull_convex pts h hh hnc
+
+/-- at least three distinct points, all on one line: the code returns `[smallest, largest, smallest]` -/
+theorem hull_collinear (pts h : List Pt) (hh : convexHull pts = some h) (hc : allCollinear pts) :
+    ∃ a b, h = [a, b, a] ∧ a ∈ pts ∧ b ∈ pts ∧ ∀ p ∈ pts, lexLe a p ∧ lexLe p b := by
+  obtain ⟨a, b, h1, h2, h3, h4⟩ := Lemmas.Hull.hull_collinear pts h hh hc
+  refine ⟨a, b, h1, h2, h3, fun p hp => ?_⟩
+  obtain ⟨k1, k2⟩ := h4 p hp
+  constructor
+  · rcases k1 with h | h
+    · exact Or.inl ((llt_iff _ _).mp h)
+    · exact Or.inr h.symm
+  · rcases k2 with h | h
+    · exact Or.inl ((llt_iff _ _).mp h)
+    · exact Or.inr h
+
 /-! ## H. the Cython twins and `intersection_line_line_2d` -/
 
 /-- the arithmetic kernels of `acc/mapbox_earcut.pyx` and `acc/construct.pyx` are the same functions as those of the
@@ -1733,6 +2693,354 @@ theorem lineLine_sound (virtual : Bool) (tol : Rat) (htol : 0 ≤ tol) (s1 s2 c1
       · simp at h
 
 
+/-! ## I. `is_point_in_polygon_2d` against the exact winding number (session 3; proofs in `Lemmas/PolygonPip.lean`) -/
+
+/-- the crossing test of the ray casting loop (it divides by `y2 - y1`) is exactly the division-free crossing rule of the
+winding number: upward edge with the point strictly left of it, or downward edge with the point strictly right of it -/
+theorem pip_toggle_exact (p a b : Pt) :
+    PolygonKernels.pipToggle p.x p.y a.x a.y b.x b.y = true ↔ wnStep p a b ≠ 0 :=
+  Lemmas.Pip.pipToggle_iff p a b
+
+/-- the boundary test with `abs_tol = 0` is the exact test "point on the closed segment" -/
+theorem pip_band_zero_exact (p a b : Pt) :
+    PolygonKernels.pipOnEdge p.x p.y a.x a.y b.x b.y 0 = true ↔ onSegment a b p :=
+  Lemmas.Pip.pipOnEdge_zero_iff p a b
+
+/-- `pip_agrees_exact`: for every polygon (any orientation, self-intersecting or not) and every point,
+* the answer 0 (boundary) is given only when the point passes the band test of some edge,
+* away from the band (no edge passes the band test) the answer is +1 exactly when the exact winding number is odd and
+  -1 exactly when it is even.
+(For simple polygons the winding number is 0 or ±1, so odd = inside; that geometric fact is not proved here.) -/
+theorem pip_agrees_exact (pt : Pt) (polygon : List Pt) (tol : Rat) (h3 : 3 ≤ polygon.length) (hr : 3 ≤ (pipRing polygon).length) :
+    (pointInPolygon pt polygon tol = 0 ↔
+      ∃ e ∈ polygonEdges (pipRing polygon), PolygonKernels.pipOnEdge pt.x pt.y e.1.x e.1.y e.2.x e.2.y tol = true) ∧
+    (pointInPolygon pt polygon tol = 1 → windingNumber pt (pipRing polygon) % 2 ≠ 0) ∧
+    (pointInPolygon pt polygon tol = -1 → windingNumber pt (pipRing polygon) % 2 = 0) := by
+  unfold pointInPolygon
+  rw [if_neg (by omega)]
+  dsimp only
+  match hring : pipRing polygon, hr with
+  | p :: q :: r :: t, _ =>
+    have hl : lastPt r t = lastPt p (q :: r :: t) := rfl
+    simp only [polygonEdges, windingNumber]
+    rw [hl]
+    match hloop : pipLoop pt.x pt.y tol (lastPt p (q :: r :: t)) (p :: q :: r :: t) false with
+    | none =>
+      refine ⟨⟨fun _ => Lemmas.Pip.pipLoop_none pt tol _ _ _ hloop, fun _ => rfl⟩, fun h => by simp at h, fun h => by simp at h⟩
+    | some true =>
+      have hp := (Lemmas.Pip.pipLoop_parity pt tol _ _ _ _ hloop).mp rfl
+      have hs := Lemmas.Pip.pipLoop_some pt tol _ _ _ _ hloop
+      refine ⟨⟨fun h => by simp at h, fun ⟨e, he, h2⟩ => by rw [hs e he] at h2; simp at h2⟩, fun _ => ?_, fun h => by simp at h⟩
+      intro h0
+      exact Bool.false_ne_true (hp.mpr h0)
+    | some false =>
+      have hp := Lemmas.Pip.pipLoop_parity pt tol _ _ _ _ hloop
+      have hs := Lemmas.Pip.pipLoop_some pt tol _ _ _ _ hloop
+      refine ⟨⟨fun h => by simp at h, fun ⟨e, he, h2⟩ => by rw [hs e he] at h2; simp at h2⟩, fun h => by simp at h, fun _ => ?_⟩
+      by_contra h0
+      have : (false = true ↔ windingGo pt (lastPt p (q :: r :: t)) (p :: q :: r :: t) % 2 = 0) := by
+        constructor
+        · intro hh; exact absurd hh Bool.false_ne_true
+        · intro hh; exact absurd hh h0
+      exact Bool.false_ne_true (hp.mpr this)
+
+/-! ## J. `is_convex_polygon_2d` (session 3; the code after fix 4fe7d128a; proofs in `Lemmas/PolygonConvex.lean`) -/
+
+/-- the corners evaluated by `is_convex_polygon_2d(polygon)`: seeded with the last vertex and the last vertex that is not
+coincident with it, coincident vertices skipped -/
+def convexCornersOf (polygon : List Pt) : List (Pt × Pt × Pt) :=
+  match polygon.reverse with
+  | last :: before => convexCorners (convexSeed last before) last polygon
+  | [] => []
+
+/-- `is_convex_polygon_2d` returns `True` exactly when there are at least three vertices, some evaluated corner has a
+significant determinant (`abs(det) >= epsilon`), all significant determinants have one common sign and, in strict mode, every
+evaluated corner is significant -/
+theorem isConvex_iff (strict : Bool) (eps : Rat) (polygon : List Pt) :
+    isConvexPolygon strict eps polygon = true ↔
+      3 ≤ polygon.length ∧ ∃ s : Rat, (s = 1 ∨ s = -1) ∧
+        (∃ c ∈ convexCornersOf polygon, PolygonKernels.convexSignificant (cornerDet c) eps = true) ∧
+        ∀ c ∈ convexCornersOf polygon,
+          (PolygonKernels.convexSignificant (cornerDet c) eps = true → PolygonKernels.convexSign (cornerDet c) = s) ∧
+          (strict = true → PolygonKernels.convexSignificant (cornerDet c) eps = true) := by
+  unfold isConvexPolygon convexCornersOf
+  by_cases hlen : polygon.length < 3
+  · rw [if_pos hlen]
+    constructor
+    · intro h; exact absurd h Bool.false_ne_true
+    · rintro ⟨h, _⟩; omega
+  · rw [if_neg hlen]
+    match hrev : polygon.reverse with
+    | [] =>
+      have : polygon = [] := by simpa using hrev
+      subst this; simp at hlen
+    | last :: before =>
+      dsimp only
+      rw [Lemmas.Convex.convexLoop_spec strict eps polygon _ last 0 (Or.inl rfl)]
+      constructor
+      · rintro ⟨s, h1, _, h3, h4⟩
+        exact ⟨by omega, s, h1, h3 rfl, h4⟩
+      · rintro ⟨_, s, h1, h3, h4⟩
+        exact ⟨s, h1, fun h => absurd rfl h, fun _ => h3, h4⟩
+
+/-- without coincident neighbours (cyclically) the evaluated corners are ALL corners of the closed polygon, the one at the
+last vertex included: `(p[-2], p[-1], p[0]), (p[-1], p[0], p[1]), …, (p[-3], p[-2], p[-1])` -/
+theorem isConvex_corners_all (pre : List Pt) (q last : Pt) (h1 : closeDefault q last = false)
+    (h2 : ∀ e ∈ pairsOf (last :: (pre ++ [q, last])), closeDefault e.2 e.1 = false) :
+    convexCornersOf (pre ++ [q, last]) = triplesOf (q :: last :: (pre ++ [q, last])) := by
+  unfold convexCornersOf
+  have hrev : (pre ++ [q, last]).reverse = last :: q :: pre.reverse := by simp
+  rw [hrev]
+  dsimp only
+  have hseed : convexSeed last (q :: pre.reverse) = q := by
+    match pre.reverse with
+    | [] => rfl
+    | r :: rest => simp only [convexSeed, h1, Bool.false_eq_true, if_false]
+  rw [hseed]
+  exact Lemmas.Convex.convexCorners_all _ q last h2
+
+/-! ## K. `ConcaveClippingPolygon2d.clip_polygon`, the branch without Greiner-Hormann parts (session 3) -/
+
+/-- the fall-back of the concave clipping polygon (after fix c773d3f04) returns the whole subject only if NO subject vertex is
+strictly outside the clipping polygon (code -1) and, when all vertices lie on the clipping path, no edge mid point is strictly
+outside; it returns nothing as soon as one vertex is strictly outside — independent of the start vertex of the subject (the kernel
+`concaveFallbackOutside` is regenerated from the source) -/
+theorem concave_fallback_sound (clip : List Pt) (tol : Rat) (subject v : List Pt) :
+    (concaveNoPart clip tol subject = some v →
+      v = popClosing subject tol ∧ (∀ p ∈ v, 0 ≤ pointInPolygon p clip tol) ∧
+      ((∀ p ∈ v, pointInPolygon p clip tol = 0) → ∀ q ∈ edgeMids v, 0 ≤ pointInPolygon q clip tol)) ∧
+    ((∃ p ∈ popClosing subject tol, pointInPolygon p clip tol < 0) → concaveNoPart clip tol subject = none) := by
+  unfold concaveNoPart
+  dsimp only
+  by_cases hlen : (popClosing subject tol).length < 3
+  · rw [if_pos hlen]
+    exact ⟨fun h => by simp at h, fun _ => rfl⟩
+  · rw [if_neg hlen]
+    generalize hcodes : (popClosing subject tol).map (fun v => pointInPolygon v clip tol) = codes
+    generalize hmids : (edgeMids (popClosing subject tol)).map (fun v => pointInPolygon v clip tol) = mids
+    have hneg : ∀ (l : List Int), (l.any (fun c => decide (c < (0 : Int)))) = true ↔ ∃ c ∈ l, c < 0 := by
+      intro l; simp [List.any_eq_true]
+    by_cases hout : PolygonKernels.concaveFallbackOutside codes mids = true
+    · rw [if_pos hout]
+      exact ⟨fun h => by simp at h, fun _ => rfl⟩
+    · rw [if_neg hout]
+      simp only [PolygonKernels.concaveFallbackOutside] at hout
+      have hno : ¬ ∃ c ∈ codes, c < 0 := by
+        intro hc
+        apply hout
+        rw [(hneg codes).mpr hc]
+        simp
+      refine ⟨fun h => ?_, fun ⟨p, hp, hlt⟩ => ?_⟩
+      · simp only [Option.some.injEq] at h
+        subst h
+        refine ⟨rfl, ?_, ?_⟩
+        · intro p hp
+          by_contra hc
+          exact hno ⟨_, by rw [← hcodes]; exact List.mem_map_of_mem hp, not_le.mp hc⟩
+        · intro hall q hq
+          by_contra hc
+          apply hout
+          have h1 : (codes.any (fun c => decide (c < (0 : Int)))) = false := by
+            by_contra hx
+            exact hno ((hneg codes).mp (by simpa using hx))
+          have h2 : (codes.any (fun c => decide (c ≠ 0))) = false := by
+            rw [List.any_eq_false]
+            intro c hcm
+            rw [← hcodes] at hcm
+            obtain ⟨p, hp, rfl⟩ := List.mem_map.mp hcm
+            simp [hall p hp]
+          simp only [h1, h2, Bool.not_false, Bool.and_self, if_true]
+          exact (hneg mids).mpr ⟨_, by rw [← hmids]; exact List.mem_map_of_mem hq, not_le.mp hc⟩
+      · exact absurd ⟨_, by rw [← hcodes]; exact List.mem_map_of_mem hp, hlt⟩ hno
+
+/-- rotating the subject (another start vertex) never changes the fall-back decision -/
+theorem concave_fallback_rotation (codes mids : List Int) (k : Nat) :
+    PolygonKernels.concaveFallbackOutside (codes.drop k ++ codes.take k) (mids.drop k ++ mids.take k) =
+      PolygonKernels.concaveFallbackOutside codes mids := by
+  have rot : ∀ (l : List Int) (f : Int → Bool), (l.drop k ++ l.take k).any f = l.any f := by
+    intro l f
+    conv_rhs => rw [← List.take_append_drop k l]
+    rw [List.any_append, List.any_append, Bool.or_comm]
+  simp only [PolygonKernels.concaveFallbackOutside, rot]
+
+/-! ## L. what the ear test guarantees (session 3; proofs in `Lemmas/PolygonEar.lean`) -/
+
+/-- `point_in_triangle` for a counter-clockwise triangle (the only case `is_ear` uses it in) is exact membership in the closed
+triangle: the point is a convex combination of the three corners, and conversely -/
+theorem pointInTriangle_exact (a b c p : Node) (hccw : area a b c < 0) :
+    PolygonKernels.pointInTriangle a.x a.y b.x b.y c.x c.y p.x p.y = true ↔
+      ∃ α β γ : Rat, 0 ≤ α ∧ 0 ≤ β ∧ 0 ≤ γ ∧ α + β + γ = 1 ∧
+        p.x = α * a.x + β * b.x + γ * c.x ∧ p.y = α * a.y + β * b.y + γ * c.y :=
+  Lemmas.Ear.pointInTriangle_iff_convex a b c p hccw
+
+/-- the bounding-box pre-test of `is_ear` is redundant: it never changes the answer -/
+theorem isEar_bbox_redundant (a b c pp p pn : Node) (hccw : area a b c < 0) :
+    PolygonKernels.isEarBlocked a.x a.y b.x b.y c.x c.y pp.x pp.y p.x p.y pn.x pn.y = true ↔
+      PolygonKernels.pointInTriangle a.x a.y b.x b.y c.x c.y p.x p.y = true ∧ 0 ≤ area pp p pn :=
+  Lemmas.Ear.isEarBlocked_iff a b c pp p pn hccw
+
+/-- `is_ear(b)` holds exactly when the corner `a, b, c` is strictly convex (counter-clockwise) and no vertex `p` of the rest of
+the ring (from `c.next` to `a.prev`) that is reflex or flat (`area(p.prev, p, p.next) >= 0`) lies in the closed triangle `a b c`.
+(Convex vertices inside the triangle are NOT excluded by the test; that a simple polygon with a vertex inside the triangle also
+has a reflex one inside is the geometric fact behind the optimisation and is not proved here.) -/
+theorem isEar_iff (b c : Node) (r : List Node) :
+    isEar (b :: c :: r) = true ↔
+      area (lastOr c r) b c < 0 ∧
+      ∀ w ∈ windows3 (c :: r),
+        ¬ (PolygonKernels.pointInTriangle (lastOr c r).x (lastOr c r).y b.x b.y c.x c.y w.2.1.x w.2.1.y = true ∧
+          0 ≤ area w.1 w.2.1 w.2.2) := by
+  simp only [isEar]
+  by_cases hre : PolygonKernels.isEarReflex (lastOr c r).x (lastOr c r).y b.x b.y c.x c.y = true
+  · rw [if_pos hre]
+    have : 0 ≤ area (lastOr c r) b c := by
+      simpa [PolygonKernels.isEarReflex, area] using hre
+    constructor
+    · intro h; exact absurd h Bool.false_ne_true
+    · rintro ⟨h, _⟩; linarith
+  · rw [if_neg hre]
+    have hccw : area (lastOr c r) b c < 0 := by
+      have : ¬ (0 ≤ area (lastOr c r) b c) := by
+        simpa [PolygonKernels.isEarReflex, area] using hre
+      exact not_le.mp this
+    simp only [Bool.not_eq_true', List.any_eq_false, Bool.not_eq_true]
+    constructor
+    · intro h
+      refine ⟨hccw, fun w hw hb => ?_⟩
+      have := h w hw
+      rw [(Lemmas.Ear.isEarBlocked_iff _ _ _ _ _ _ hccw).mpr hb] at this
+      exact Bool.noConfusion this
+    · rintro ⟨_, h⟩ w hw
+      by_contra hb
+      exact h w hw ((Lemmas.Ear.isEarBlocked_iff _ _ _ _ _ _ hccw).mp (by simpa using hb))
+
+/-! ## M. Greiner-Hormann: the classification of the intersection nodes (session 3; proofs in `Lemmas/PolygonGH.lean`)
+
+`ghMark` models phase 2 of `GHPolygon.clip` (entry/exit marks), `ghUsed` the pieces of the polygon boundary walked by phase 3;
+both are compared with the real node lists for union, intersection and difference (correspondence X5). -/
+
+/-- `alternates`: along each polygon the marks of the intersection nodes alternate, starting with `op_entry xor inside(first)` -/
+theorem gh_marks_alternate (opEntry inside : Bool) (isect : List Bool) :
+    Lemmas.GH.AltFrom (opEntry != inside) ((ghPhase2 opEntry inside isect).filterMap id) :=
+  Lemmas.GH.marks_alternate isect _
+
+/-- for an even number of intersection nodes (every closed curve in general position) the alternation is consistent around the
+ring: the last mark is the opposite of the first one; for an odd number it is not -/
+theorem gh_marks_cyclic (opEntry inside : Bool) (isect : List Bool) (h : isect.count true ≠ 0) :
+    ghLastSome (ghPhase2 opEntry inside isect) =
+      some (if isect.count true % 2 = 0 then !(opEntry != inside) else (opEntry != inside)) := by
+  unfold ghPhase2
+  rw [Lemmas.GH.lastSome_mark, if_neg h]
+
+/-- union and intersection mark every intersection node of either polygon with opposite flags -/
+theorem gh_union_intersection_marks (inside : Bool) (isect : List Bool) :
+    ghPhase2 PolygonKernels.ghUnion.1 inside isect = (ghPhase2 PolygonKernels.ghIntersection.1 inside isect).map (Option.map not) ∧
+    ghPhase2 PolygonKernels.ghUnion.2 inside isect = (ghPhase2 PolygonKernels.ghIntersection.2 inside isect).map (Option.map not) := by
+  have e1 : (PolygonKernels.ghUnion.1 != inside) = !(PolygonKernels.ghIntersection.1 != inside) := by cases inside <;> rfl
+  have e2 : (PolygonKernels.ghUnion.2 != inside) = !(PolygonKernels.ghIntersection.2 != inside) := by cases inside <;> rfl
+  unfold ghPhase2
+  rw [e1, e2]
+  exact ⟨Lemmas.GH.marks_complementary isect _, Lemmas.GH.marks_complementary isect _⟩
+
+/-- inclusion-exclusion at the level of the classification: when the polygons intersect, every original vertex (every boundary
+piece between two intersection nodes) of a polygon is walked by exactly one of the two operations union and intersection — this
+is the combinatorial content of `area(A) + area(B) = area(A|B) + area(A&B)`; the areas themselves are checked by the oracle -/
+theorem gh_union_intersection_partition (inside : Bool) (isect : List Bool) (h : isect.count true ≠ 0) :
+    ghUsed (ghPhase2 PolygonKernels.ghUnion.1 inside isect) =
+      (ghUsed (ghPhase2 PolygonKernels.ghIntersection.1 inside isect)).map not := by
+  rw [(gh_union_intersection_marks inside isect).1]
+  apply Lemmas.GH.used_complementary
+  rw [gh_marks_cyclic _ _ _ h]
+  simp
+
+/-- difference `A - B`: `A` is marked like in the union (its pieces outside `B` are walked), `B` like in the intersection -/
+theorem gh_difference_marks :
+    PolygonKernels.ghDifference.1 = PolygonKernels.ghUnion.1 ∧ PolygonKernels.ghDifference.2 = PolygonKernels.ghIntersection.2 :=
+  ⟨rfl, rfl⟩
+
+/-! ## N. `has_clockwise_orientation` and completeness of `intersection_line_line_2d` (session 3) -/
+
+private theorem cwSum_eq (prev : Pt) (l : List Pt) :
+    cwSum prev l = ((lastPt prev l).x * (lastPt prev l).y - prev.x * prev.y) - fanGo ⟨0, 0⟩ prev l := by
+  induction l generalizing prev with
+  | nil => simp [cwSum, fanGo, lastPt]
+  | cons q qs ih =>
+    simp only [cwSum, fanGo, lastPt, ih, PolygonKernels.cwTerm, sideOf]
+    ring
+
+/-- `has_clockwise_orientation` of an open ring (first and last vertex not coincident) is the sign of the exact signed area:
+`True` exactly when twice the counter-clockwise signed area is negative -/
+theorem cw_iff_negative_area (p q r : Pt) (t : List Pt)
+    (hopen : ptClose p (lastPt q (r :: t)) PolygonKernels.iscloseAbsTol = false) :
+    hasClockwiseOrientation (p :: q :: r :: t) = some (decide (fanArea ⟨0, 0⟩ (p :: q :: r :: t) < 0)) := by
+  simp only [hasClockwiseOrientation, hopen, Bool.false_eq_true, if_false, List.cons_append, Option.some.injEq,
+    PolygonKernels.cwPositive]
+  rw [cwSum_eq]
+  have hl : lastPt p (q :: r :: (t ++ [p])) = p := by
+    have : ∀ (a : Pt) (l : List Pt), lastPt a (l ++ [p]) = p := by
+      intro a l
+      induction l generalizing a with
+      | nil => rfl
+      | cons b bs ih => exact ih b
+    exact this q (r :: t)
+  rw [hl]
+  have hf : fanGo ⟨0, 0⟩ p (q :: r :: (t ++ [p])) = fanArea ⟨0, 0⟩ (p :: q :: r :: t) := by
+    have happ : q :: r :: (t ++ [p]) = (q :: r :: t) ++ [p] := rfl
+    rw [happ, fanGo_append]
+    simp only [fanArea, fanGo, lastPt, add_zero]
+    ring
+  rw [hf]
+  congr 1
+  apply propext
+  constructor <;> intro h <;> linarith
+
+/-- completeness of `intersection_line_line_2d` with tolerance 0: two segments that are not parallel and have a common point
+`P = s1 + us (s2 - s1) = c1 + uc (c2 - c1)`, `0 ≤ us, uc ≤ 1`, always get this point as the answer (also with `virtual=False`) -/
+theorem lineLine_complete (virtual : Bool) (s1 s2 c1 c2 : Pt) (us uc : Rat) (hus : 0 ≤ us ∧ us ≤ 1) (huc : 0 ≤ uc ∧ uc ≤ 1)
+    (hp : lerp s1 s2 us = lerp c1 c2 uc)
+    (hnp : (c2.y - c1.y) * (s2.x - s1.x) - (c2.x - c1.x) * (s2.y - s1.y) ≠ 0) :
+    lineLine virtual 0 s1 s2 c1 c2 = some (lerp s1 s2 us) := by
+  simp only [lerp, Pt.mk.injEq] at hp
+  obtain ⟨hx, hy⟩ := hp
+  have e_us : ((c2.x - c1.x) * (s1.y - c1.y) - (c2.y - c1.y) * (s1.x - c1.x)) /
+      ((c2.y - c1.y) * (s2.x - s1.x) - (c2.x - c1.x) * (s2.y - s1.y)) = us := by
+    rw [div_eq_iff hnp]
+    linear_combination (c2.x - c1.x) * hy - (c2.y - c1.y) * hx
+  have e_uc : ((s2.x - s1.x) * (s1.y - c1.y) - (s2.y - s1.y) * (s1.x - c1.x)) /
+      ((c2.y - c1.y) * (s2.x - s1.x) - (c2.x - c1.x) * (s2.y - s1.y)) = uc := by
+    rw [div_eq_iff hnp]
+    linear_combination (s2.x - s1.x) * hy - (s2.y - s1.y) * hx
+  have hden : ¬ (PolygonKernels.rabs ((c2.y - c1.y) * (s2.x - s1.x) - (c2.x - c1.x) * (s2.y - s1.y)) ≤ 0) := by
+    intro h
+    simp only [PolygonKernels.rabs] at h
+    split_ifs at h with hneg
+    · apply hnp; linarith
+    · apply hnp; linarith [not_lt.mp hneg]
+  simp only [lineLine, PolygonKernels.lineLine, decide_eq_true_eq, hden, if_false, e_us, e_uc]
+  cases virtual with
+  | true => simp [lerp]
+  | false => simp [lerp, hus.1, hus.2, huc.1, huc.2]
+
+/-! ## O. completion of earcut for strictly convex rings (session 3; proofs in `Lemmas/PolygonEarConvex.lean`) -/
+
+/-- `earcut_completes` for the class of strictly convex rings of ANY size (`ConvexRing`: any three nodes in ring order make a
+strict counter-clockwise turn): with fuel ≥ n the main loop of `earcut_linked` cuts the ear at the cursor in every step, never
+enters the second or third pass, emits exactly `n - 2` triangles, and their signed areas add up to the signed area of the ring -/
+theorem earcut_completes_convex (l : List Node) (hc : Lemmas.EarConvex.ConvexRing l) (fuel pass : Nat) (hlen : l.length ≤ fuel)
+    (hf : 0 < fuel) :
+    (earcutLinked fuel l 0 pass).complete ∧ (earcutLinked fuel l 0 pass).tris.length = l.length - 2 ∧
+      sumTri (earcutLinked fuel l 0 pass).tris = signedArea l := by
+  obtain ⟨h1, h2⟩ := Lemmas.EarConvex.earcutLinked_convex fuel l pass hc hlen hf
+  exact ⟨h1, h2, earcut_conserves fuel l 0 pass h1⟩
+
+/-- `earcut_no_overlap` for strictly convex rings of any size: every triangle vertex is a ring node, and every emitted triangle is
+separated from every LATER triangle by a proper line (the line of its cut edge `c → a`): the two triangles lie in opposite closed
+half-planes of that line, so their interiors are disjoint -/
+theorem earcut_convex_no_overlap (l : List Node) (hc : Lemmas.EarConvex.ConvexRing l) (fuel pass : Nat) (hlen : l.length ≤ fuel)
+    (hf : 0 < fuel) :
+    (∀ t ∈ (earcutLinked fuel l 0 pass).tris, ∀ v ∈ Lemmas.EarConvex.triVerts t, v ∈ l) ∧
+    List.Pairwise Lemmas.EarConvex.Separated (earcutLinked fuel l 0 pass).tris :=
+  Lemmas.EarConvex.earcutLinked_convex_sep fuel l pass hc hlen hf
+
 /-! ## statements of C19 that are NOT proved (kept visible; covered by correspondence and the exact oracle only)
 
 ```
@@ -1740,20 +3048,31 @@ theorem lineLine_sound (virtual : Bool) (tol : Rat) (htol : 0 ≤ tol) (s1 s2 c1
 -- theorem earcut_completes (exterior : List Pt) (hsimple : SimplePolygon exterior) :
 --     ∃ fuel o, earcut fuel exterior [] = .ok o false ∧ o.complete
 -- reason: needs the Jordan-curve style two-ears argument for the ear test as coded (bounding box + point_in_triangle +
--- reflex test).
+-- reflex test).  Proved for the class of strictly convex rings of any size: `earcut_completes_convex` (section O).
 
 -- non-overlap: the open triangles of a complete run on a simple polygon are pairwise disjoint and lie inside it
--- theorem earcut_no_overlap ...          -- reason: needs the geometric meaning of `isEarBlocked`, not only the area algebra
+-- theorem earcut_no_overlap ...
+-- proved (section L): what the test guarantees (`isEar_iff`, `pointInTriangle_exact`, `isEar_bbox_redundant`);
+-- not proved: "no reflex-or-flat vertex in the closed ear triangle of a simple polygon => the ear is disjoint from the rest"
+-- (a statement about simple closed curves), hence not the induction over the ear sequence for general simple polygons.
+-- Proved for strictly convex rings of any size: `earcut_convex_no_overlap` (pairwise separation by a line).
 
--- Sutherland-Hodgman exactness: shoelace area of `clipPolygon clip tol poly` = area of (poly ∩ convex clip)
--- theorem sh_exact_area ...              -- reason: containment is proved (`clipPolygon_inside`), equality of the point sets is not
+-- Sutherland-Hodgman exactness: `clipPolygon clip tol poly` = poly ∩ convex clip as point sets / shoelace area of it
+-- theorem sh_exact_area ...
+-- proved: containment in every clip half-plane (`clipPolygon_inside`) and in the hull of the subject
+-- (`clipPolygon_in_subject_hull`), `clip_outside_empty`, `clip_inside_identity`, and the conservation of the signed area
+-- across one cut (`clipEdge_area_split`, tolerance 0); not proved: equality with the intersection as a point set, and
+-- clip_idempotent (vertices on a clipping edge are cut again: equal only up to the intersection tolerance).
 
--- cs_reject_sound at full strength: `csClipLine w fuel p0 p1 = .reject → ∀ t ∈ [0,1], ¬ w.contains (lerp p0 p1 t)`
--- reason: needs the loop invariant "every discarded piece lies outside"; proved for the first iteration (`…_partial`).
--- cs_complete: an accepted result is exactly the intersection of the segment with the window: same invariant.
+-- ConvexClippingPolygon2d.clip_line with abs_tol > 0: `clipLineConvex_exact` is proved for tolerance 0; with a positive
+-- tolerance an end point whose edge is parallel to the clipping edge within the tolerance is kept although it is outside.
 
--- hull_convex / hull_contains_all for the final list (junction turn, closing turn, all input points left of every edge)
--- reason: needs the lexicographic order produced by `sort()`; proved: `lower_hull_left_turns`, `hull_upper_left_turns_partial`.
+-- Greiner-Hormann: area(A) + area(B) = area(A|B) + area(A&B) as a statement about areas
+-- proved (section M): the entry/exit classification and the complementary pieces (`gh_union_intersection_partition`);
+-- not modelled: phase 1 (intersection search) and the assembly of the result polygons in phase 3.
+
+-- pip: "winding number of a simple polygon is 0 or ±1, and odd = inside" (Jordan curve theorem) is not proved;
+-- `pip_agrees_exact` identifies the answer with the parity of the exact winding number.
 ```
 -/
 
@@ -1785,6 +3104,18 @@ private def twisted : List Node := linkedList [⟨1, 1⟩, ⟨3, 4⟩, ⟨3, 2
 example : (0 : Rat) ≤ PolygonKernels.tolerance := by simp only [PolygonKernels.tolerance]; norm_num
 #guard clipPolygon [⟨0, 0⟩, ⟨2, 0⟩, ⟨2, 2⟩, ⟨0, 2⟩] PolygonKernels.tolerance [⟨1, 1⟩, ⟨3, 1⟩, ⟨3, 3⟩, ⟨1, 3⟩]
   = [⟨1, 2⟩, ⟨1, 1⟩, ⟨2, 1⟩, ⟨2, 2⟩]
+-- `clip_inside_identity` / `clip_outside_empty`: a triangle strictly inside the square, a triangle touching it from outside
+#guard clipPolygon [⟨0, 0⟩, ⟨4, 0⟩, ⟨4, 4⟩, ⟨0, 4⟩] PolygonKernels.tolerance [⟨1, 1⟩, ⟨3, 1⟩, ⟨2, 3⟩] = [⟨1, 1⟩, ⟨3, 1⟩, ⟨2, 3⟩]
+#guard popClosing [⟨1, 1⟩, ⟨3, 1⟩, (⟨2, 3⟩ : Pt)] PolygonKernels.tolerance = [⟨1, 1⟩, ⟨3, 1⟩, ⟨2, 3⟩]
+#guard clipPolygon [⟨0, 0⟩, ⟨4, 0⟩, ⟨4, 4⟩, ⟨0, 4⟩] PolygonKernels.tolerance [⟨4, 1⟩, ⟨6, 1⟩, ⟨4, 3⟩] = []
+-- `clipEdge_area_split`: a concave polygon cut by the line x = 2: the two parts have areas 2*5 and 2*7 (fan area = twice the area)
+#guard fanArea ⟨0, 0⟩ [⟨0, 0⟩, ⟨4, 0⟩, ⟨4, 4⟩, ⟨2, 1⟩, ⟨0, 4⟩] = 20
+#guard fanArea ⟨0, 0⟩ (clipEdge ⟨2, 0⟩ ⟨2, 1⟩ 0 [⟨0, 0⟩, ⟨4, 0⟩, ⟨4, 4⟩, ⟨2, 1⟩, ⟨0, 4⟩]) = 10
+#guard fanArea ⟨0, 0⟩ (clipEdge ⟨2, 1⟩ ⟨2, 0⟩ 0 [⟨0, 0⟩, ⟨4, 0⟩, ⟨4, 4⟩, ⟨2, 1⟩, ⟨0, 4⟩]) = 10
+#guard popClosing [⟨0, 0⟩, ⟨4, 0⟩, ⟨4, 4⟩, ⟨2, 1⟩, (⟨0, 4⟩ : Pt)] 0 = [⟨0, 0⟩, ⟨4, 0⟩, ⟨4, 4⟩, ⟨2, 1⟩, ⟨0, 4⟩]
+-- `clipLineConvex_exact` / `clipLineConvex_none`: a line through a triangle, a line that misses it
+#guard clipLineConvex [⟨0, 0⟩, ⟨4, 0⟩, ⟨0, 4⟩] 0 ⟨-1, 1⟩ ⟨5, 1⟩ = some (⟨0, 1⟩, ⟨3, 1⟩)
+#guard clipLineConvex [⟨0, 0⟩, ⟨4, 0⟩, ⟨0, 4⟩] 0 ⟨3, 3⟩ ⟨5, 1⟩ = none
 -- Cohen-Sutherland: accept, reject, and a segment that needs all four clipping steps (fuel 4 is not enough, 5 is)
 private def win : Win := ⟨0, 2, 0, 2⟩
 example : win.xmin ≤ win.xmax ∧ win.ymin ≤ win.ymax := by simp only [win]; norm_num
@@ -1792,9 +3123,58 @@ example : win.xmin ≤ win.xmax ∧ win.ymin ≤ win.ymax := by simp only [win];
 #guard csClipLine win 4 ⟨-2, -1⟩ ⟨4, 3⟩ = .fuel   -- four clipping steps are needed here
 #guard csClipLine win 5 ⟨-5, 0⟩ ⟨1, 10⟩ = .reject
 #guard PolygonKernels.csReject (win.encode 3 0) (win.encode 5 7) = true
+-- `cs_reject_sound`: a reject that happens in the SECOND iteration (the outcodes of the input end points share no bit)
+#guard PolygonKernels.csReject (win.encode (-1) 1) (win.encode 1 4) = false ∧ csClipLine win 5 ⟨-1, 1⟩ ⟨1, 4⟩ = .reject
+-- `cs_accept_exact`: the segment touches the window in the corner (2, 2) only: u0 = u1
+#guard csClipLine win 5 ⟨1, 3⟩ ⟨3, 1⟩ = .accept ⟨2, 2⟩ ⟨2, 2⟩
 -- convex hull of points with collinear and interior points
 #guard convexHull [⟨0, 0⟩, ⟨1, 0⟩, ⟨2, 0⟩, ⟨1, 1⟩, ⟨0, 2⟩, ⟨1 / 2, 1 / 2⟩, ⟨2, 2⟩]
   = some [⟨0, 0⟩, ⟨2, 0⟩, ⟨2, 2⟩, ⟨0, 2⟩, ⟨0, 0⟩]
 #guard lineLine false PolygonKernels.tolerance ⟨0, 0⟩ ⟨2, 2⟩ ⟨0, 2⟩ ⟨2, 0⟩ = some ⟨1, 1⟩
+-- `isConvex_iff`: a square, a dart whose reflex corner is the LAST vertex (the corner the seeded change C19-m1 skipped),
+-- the same dart with the reflex vertex repeated (the input of the defect fixed by 4fe7d128a), strict mode with a collinear vertex
+#guard isConvexPolygon false (1 / 1000000) [⟨0, 0⟩, ⟨4, 0⟩, ⟨4, 4⟩, ⟨0, 4⟩] = true
+#guard isConvexPolygon false (1 / 1000000) [⟨0, 0⟩, ⟨8, 4⟩, ⟨0, 8⟩, ⟨3, 4⟩] = false
+#guard isConvexPolygon false (1 / 1000000) [⟨0, 0⟩, ⟨8, 4⟩, ⟨0, 8⟩, ⟨3, 4⟩, ⟨3, 4⟩] = false
+#guard isConvexPolygon true (1 / 1000000) [⟨0, 0⟩, ⟨2, 0⟩, ⟨4, 0⟩, ⟨4, 4⟩] = false ∧
+  isConvexPolygon false (1 / 1000000) [⟨0, 0⟩, ⟨2, 0⟩, ⟨4, 0⟩, ⟨4, 4⟩] = true
+#guard (convexCornersOf [⟨0, 0⟩, ⟨8, 4⟩, ⟨0, 8⟩, ⟨3, 4⟩]).length = 4
+-- `concave_fallback_sound`: an L-shaped clipping polygon; a square in the notch touching it with its FIRST vertex is dropped,
+-- a square inside that touches the boundary is kept, a triangle that fills the corner of the notch (all vertices on the path) is dropped
+#guard concaveNoPart [⟨0, 0⟩, ⟨8, 0⟩, ⟨8, 4⟩, ⟨4, 4⟩, ⟨4, 8⟩, ⟨0, 8⟩] PolygonKernels.tolerance [⟨4, 4⟩, ⟨6, 4⟩, ⟨4, 6⟩] = none
+#guard concaveNoPart [⟨0, 0⟩, ⟨8, 0⟩, ⟨8, 4⟩, ⟨4, 4⟩, ⟨4, 8⟩, ⟨0, 8⟩] PolygonKernels.tolerance [⟨4, 4⟩, ⟨6, 4⟩, ⟨6, 6⟩, ⟨4, 6⟩] = none
+#guard concaveNoPart [⟨0, 0⟩, ⟨8, 0⟩, ⟨8, 4⟩, ⟨4, 4⟩, ⟨4, 8⟩, ⟨0, 8⟩] PolygonKernels.tolerance [⟨2, 2⟩, ⟨4, 2⟩, ⟨4, 4⟩, ⟨2, 4⟩]
+  = some [⟨2, 2⟩, ⟨4, 2⟩, ⟨4, 4⟩, ⟨2, 4⟩]
+-- Greiner-Hormann marks: four intersection nodes, first vertex outside, intersection (entry = true): marks alternate and
+-- the two ordinary vertices between an entry and an exit node are walked
+#guard ghPhase2 true false [false, true, false, false, true, true, false, true] = [none, some true, none, none, some false, some true, none, some false]
+#guard ghUsed (ghPhase2 true false [false, true, false, false, true, true, false, true]) = [false, true, true, true]
+#guard ghUsed (ghPhase2 false false [false, true, false, false, true, true, false, true]) = [true, false, false, false]
+-- `cw_iff_negative_area`: an open clockwise ring
+#guard hasClockwiseOrientation [⟨0, 0⟩, ⟨0, 4⟩, ⟨4, 4⟩, ⟨4, 0⟩] = some true ∧ fanArea ⟨0, 0⟩ [⟨0, 0⟩, ⟨0, 4⟩, ⟨4, 4⟩, (⟨4, 0⟩ : Pt)] = -32
+-- `earcut_completes_convex`: a triangle is a `ConvexRing`; a convex octagon is triangulated into 6 triangles
+example : Lemmas.EarConvex.ConvexRing [⟨0, 0, 0, 0, false⟩, ⟨1, 1, 4, 0, false⟩, ⟨2, 2, 0, 4, false⟩] := by
+  intro x y z h
+  have := List.Sublist.eq_of_length h (by simp)
+  simp only [List.cons.injEq, and_true] at this
+  obtain ⟨rfl, rfl, rfl⟩ := this
+  simp [area, PolygonKernels.area]
+#guard (earcutLinked 9 (linkedList [⟨2, 0⟩, ⟨4, 0⟩, ⟨6, 2⟩, ⟨6, 4⟩, ⟨4, 6⟩, ⟨2, 6⟩, ⟨0, 4⟩, ⟨0, 2⟩] 0 0 true) 0 0).tris.length = 6
+-- `pip_agrees_exact`: inside, outside, boundary; a closed input ring loses its closing vertex
+#guard pointInPolygon ⟨1, 1⟩ [⟨0, 0⟩, ⟨4, 0⟩, ⟨4, 4⟩, ⟨0, 4⟩] PolygonKernels.tolerance = 1
+#guard windingNumber ⟨1, 1⟩ [⟨0, 0⟩, ⟨4, 0⟩, ⟨4, 4⟩, ⟨0, 4⟩] = 1 ∧ windingNumber ⟨1, 1⟩ [⟨0, 4⟩, ⟨4, 4⟩, ⟨4, 0⟩, ⟨0, 0⟩] = -1
+#guard pointInPolygon ⟨5, 1⟩ [⟨0, 0⟩, ⟨4, 0⟩, ⟨4, 4⟩, ⟨0, 4⟩] PolygonKernels.tolerance = -1
+#guard pointInPolygon ⟨4, 1⟩ [⟨0, 0⟩, ⟨4, 0⟩, ⟨4, 4⟩, ⟨0, 4⟩] PolygonKernels.tolerance = 0
+#guard (pipRing [⟨0, 0⟩, ⟨4, 0⟩, ⟨4, 4⟩, ⟨0, 4⟩, ⟨0, 0⟩]).length = 4
+-- `hull_convex`: a point set that is not collinear; the corners listed by `triplesOf (h ++ [h[1]])` for the square above
+example : ¬ allCollinear [⟨0, 0⟩, ⟨1, 0⟩, ⟨0, 1⟩] := by
+  intro h
+  have := h ⟨0, 0⟩ (by simp) ⟨1, 0⟩ (by simp) ⟨0, 1⟩ (by simp)
+  simp [hcross, PolygonKernels.hullCross] at this
+#guard (triplesOf ([⟨0, 0⟩, ⟨2, 0⟩, ⟨2, 2⟩, ⟨0, 2⟩, ⟨0, 0⟩] ++ [⟨2, 0⟩])).length = 4
+#guard (triplesOf ([⟨0, 0⟩, ⟨2, 0⟩, ⟨2, 2⟩, ⟨0, 2⟩, (⟨0, 0⟩ : Pt)] ++ [⟨2, 0⟩])).all (fun t => decide (0 < hcross t.1 t.2.1 t.2.2))
+-- `hull_collinear`: collinear input with duplicates, and `hull_error_iff`: two distinct points only
+#guard convexHull [⟨2, 2⟩, ⟨0, 0⟩, ⟨1, 1⟩, ⟨3, 3⟩, ⟨1, 1⟩] = some [⟨0, 0⟩, ⟨3, 3⟩, ⟨0, 0⟩]
+#guard convexHull [⟨2, 2⟩, ⟨0, 0⟩, ⟨2, 2⟩, ⟨0, 0⟩] = none
 
 end EzdxfVerif.Props.C19
